@@ -1,11 +1,2371 @@
-//! C16 — stub (being built).
-use crate::fw::Report;
-use serde_json::Value as J;
+//! C16 — the table store behaves like a keyed map with timestamp-ordered scans.
+//!
+//! Generated operation sequences (stage insert / stage remove through mutation
+//! buffers, `merge_all`, `clear_table`, database clones, value-level rebuilds
+//! against the union-find table, row refreshes, delete-heavy phases that cross the
+//! compaction threshold) run in lockstep on a real `egglog_core_relations::Database`
+//! and on a plain `BTreeMap<key, row>` model per table. After EVERY operation every
+//! table of the active database is read back through `len`, `all()`+`scan`,
+//! `get_row`, `get_row_column`, `updates_since`, and — where the generator asks
+//! for it — `refine`/`refine_ref`/`refine_live`, `fast_subset`, `split_fast_slow`,
+//! `scan_project` pagination, `estimate_size`, and one-/two-atom rule-set queries
+//! (fresh and through cached plans) whose matches are collected by an external
+//! function. Every read must equal the model's answer.
+//!
+//! Semantics the model encodes (all read off the documentation / the real caller
+//! egglog-bridge, see the final report of the builder):
+//!  * `Table::merge` applies ALL staged removals first, then the staged inserts in
+//!    staging order (buffer drop order, then row order inside a buffer); on a key
+//!    collision the table calls the merge function `(current row, incoming row)`
+//!    and keeps its output if it returns true, the current row otherwise.
+//!  * all rows staged between two merges carry the same sort-column value
+//!    (timestamp) and timestamps never decrease (what egglog-bridge does; the
+//!    table asserts it). The merge function writes the incoming timestamp into
+//!    the merged row (as egglog-bridge's does).
+//!  * `run_rule_set`, `apply_rebuild` and `refresh_rows_for_values` end with a
+//!    `merge_all`.
+//!  * databases are cloned only when nothing is staged (documented on
+//!    `PendingState::deep_copy`).
+//!
+//! Deviations from the design brief forced by the API are marked `DEVIATION`.
 
-pub fn run(_rep: &Report) {}
-pub fn replay(_rep: &Report, _stage: &str, _j: &J) -> i32 {
-    2
+use super::Probe;
+use crate::choice::{fnv_str, Src};
+use crate::fw::{self, Outcome, Report, Stage, Tier};
+use egglog_core_relations as cr;
+use cr::{
+    AtomId, CachedPlan, ColumnId, Constraint, Database, DisplacedTable, ExternalFunctionId, Offset, PlanStrategy, QueryEntry,
+    RuleSetBuilder, SortedWritesTable, Subset, TableId, TaggedRowBuffer, Value, Variable, WrappedTable,
+};
+use egglog_numeric_id::NumericId;
+use egglog_reports::ReportLevel;
+use serde::{Deserialize, Serialize};
+use serde_json::Value as J;
+use std::collections::{BTreeMap, BTreeSet};
+use std::sync::{Arc, Mutex};
+
+/// `DisplacedTable::clear` does not clear `lookup_table` (known finding
+/// `displaced-clear-stale-lookup`). While this is `true` the random stages never
+/// clear the union-find table (steered-away cases are counted as
+/// `excluded_known_displaced_clear`); the dedicated golden case re-demonstrates the
+/// defect on every run. Set to `false` once the defect is repaired.
+const EXCLUDE_DISPLACED_CLEAR: bool = true;
+
+/// `Database::clone` shares the `NotificationList` (an `Arc`) between the original and the clone:
+/// a `merge_all` on one of them swallows the "table is dirty" notifications of the other, whose
+/// staged rows are then not merged by its own `merge_all` (finding `clone-shares-notification-list`,
+/// found by this check). While this is `true` the random stages settle (merge) the active
+/// database before switching to another clone, so no database ever has staged data while a
+/// sibling merges (counted as `excluded_known_clone_shared_notifications`); one golden case
+/// re-demonstrates the defect. Set to `false` once the defect is repaired.
+const EXCLUDE_CLONE_SHARED_NOTIFY: bool = true;
+
+const KNOWN_SIG: &str = "displaced-clear-stale-lookup";
+const CLONE_SIG: &str = "clone-shares-notification-list";
+/// union-find ids live in 0..UF_IDS (the union-find allocates O(max id))
+const UF_IDS: usize = 16;
+const MAX_WORLDS: usize = 3;
+const PLAN_SLOTS: usize = 3;
+
+// ---------------------------------------------------------------------------
+// case description (serialisable)
+// ---------------------------------------------------------------------------
+
+#[derive(Clone, Copy, Debug, PartialEq, Eq, Serialize, Deserialize)]
+pub enum MergeKind {
+    KeepOld,
+    TakeNew,
+    Max,
+    Min,
 }
+
+#[derive(Clone, Debug, Serialize, Deserialize)]
+pub struct TSpec {
+    pub n_keys: usize,
+    pub n_cols: usize,
+    /// absolute index of the sort (timestamp) column, never a key column
+    pub sort: Option<usize>,
+    pub merge: MergeKind,
+    /// columns canonicalised by `apply_rebuild` (never the sort column)
+    pub rebuild: Vec<usize>,
+}
+
+/// A constraint (column indices are absolute).
+#[derive(Clone, Debug, PartialEq, Eq, Serialize, Deserialize)]
+pub enum C {
+    Eq(usize, usize),
+    EqC(usize, u32),
+    Lt(usize, u32),
+    Gt(usize, u32),
+    Le(usize, u32),
+    Ge(usize, u32),
+}
+
+#[derive(Clone, Debug, Serialize, Deserialize)]
+pub enum Item {
+    /// full-arity row; the value at the sort column is replaced by the current timestamp
+    Ins(Vec<u32>),
+    Rem(Vec<u32>),
+}
+
+#[derive(Clone, Debug, Serialize, Deserialize)]
+pub struct QAtom {
+    pub t: usize,
+    pub cs: Vec<C>,
+    /// per column: Some(v) = constant instead of a variable
+    pub consts: Vec<Option<u32>>,
+}
+
+#[derive(Clone, Debug, Serialize, Deserialize)]
+pub struct QRule {
+    pub atoms: Vec<QAtom>,
+    /// (column of atom 0, column of atom 1) sharing one variable
+    pub join: Option<(usize, usize)>,
+    /// a second shared variable (multi-column join => tuple index)
+    #[serde(default)]
+    pub join2: Option<(usize, usize)>,
+    /// two columns of atom 0 sharing one variable
+    pub dup: Option<(usize, usize)>,
+    pub strat: u8,
+    pub no_decomp: bool,
+}
+
+#[derive(Clone, Debug, Serialize, Deserialize)]
+pub enum Op {
+    /// stage through one or two mutation buffers of table `t`; effects land in buffer-drop order
+    Stage { t: usize, items: Vec<Item>, second: Vec<Item>, second_first: bool, fresh_handle: bool },
+    /// stage unions into the union-find table
+    Union { pairs: Vec<(u32, u32)> },
+    Merge,
+    /// advance the timestamp (merges first if anything is staged)
+    Tick { by: u32 },
+    Clear { t: usize },
+    CloneDb,
+    Switch { w: usize },
+    Rebuild { tables: Vec<usize> },
+    Refresh { tables: Vec<usize>, ids: Vec<u32> },
+    Get { t: usize, key: Vec<u32> },
+    Refine { t: usize, cs: Vec<C>, base: Option<C>, via_ref: bool },
+    Fast { t: usize, c: C },
+    Split { t: usize, cs: Vec<C> },
+    Estimate { t: usize, c: Option<C> },
+    Page { t: usize, cs: Vec<C>, base: Option<C>, n: usize, cols: Vec<usize> },
+    Query { rules: Vec<QRule> },
+    CachePlan { slot: usize, rule: QRule },
+    RunCached { slot: usize, extra: Vec<(usize, C)> },
+}
+
+#[derive(Clone, Debug, Serialize, Deserialize)]
+pub struct Case {
+    pub tables: Vec<TSpec>,
+    pub uf: bool,
+    /// run with an installed 2-thread egglog pool (=> 4 hash shards per table; all algorithms stay serial)
+    pub pool: bool,
+    pub ops: Vec<Op>,
+    /// operations the generator steered away from because of the known finding
+    pub steered: u32,
+    /// false: `Switch` merges the active database first when it has staged data (steers away from
+    /// the clone-shares-notification-list finding); true: switch as is
+    #[serde(default)]
+    pub raw_switch: bool,
+}
+
+/// The merge function installed in every generated table, also used by the model
+/// (the table's job is to call it on the right rows in the right order).
+fn merge_rows(spec: &TSpec, cur: &[u32], new: &[u32]) -> Option<Vec<u32>> {
+    let mut out = new.to_vec();
+    let mut changed = false;
+    for c in spec.n_keys..spec.n_cols {
+        if Some(c) == spec.sort {
+            continue;
+        }
+        let m = match spec.merge {
+            MergeKind::KeepOld => cur[c],
+            MergeKind::TakeNew => new[c],
+            MergeKind::Max => cur[c].max(new[c]),
+            MergeKind::Min => cur[c].min(new[c]),
+        };
+        if m != cur[c] {
+            changed = true;
+        }
+        out[c] = m;
+    }
+    changed.then_some(out)
+}
+
+fn eval_c(c: &C, row: &[u32]) -> bool {
+    match c {
+        C::Eq(l, r) => row[*l] == row[*r],
+        C::EqC(c, v) => row[*c] == *v,
+        C::Lt(c, v) => row[*c] < *v,
+        C::Gt(c, v) => row[*c] > *v,
+        C::Le(c, v) => row[*c] <= *v,
+        C::Ge(c, v) => row[*c] >= *v,
+    }
+}
+
+fn c_cols(c: &C) -> (usize, usize) {
+    match c {
+        C::Eq(l, r) => (*l, *r),
+        C::EqC(c, _) | C::Lt(c, _) | C::Gt(c, _) | C::Le(c, _) | C::Ge(c, _) => (*c, *c),
+    }
+}
+
+fn col(c: usize) -> ColumnId {
+    ColumnId::from_usize(c)
+}
+
+fn to_constraint(c: &C) -> Constraint {
+    match c {
+        C::Eq(l, r) => Constraint::Eq { l_col: col(*l), r_col: col(*r) },
+        C::EqC(c, v) => Constraint::EqConst { col: col(*c), val: Value::new(*v) },
+        C::Lt(c, v) => Constraint::LtConst { col: col(*c), val: Value::new(*v) },
+        C::Gt(c, v) => Constraint::GtConst { col: col(*c), val: Value::new(*v) },
+        C::Le(c, v) => Constraint::LeConst { col: col(*c), val: Value::new(*v) },
+        C::Ge(c, v) => Constraint::GeConst { col: col(*c), val: Value::new(*v) },
+    }
+}
+
+fn vals(row: &[u32]) -> Vec<Value> {
+    row.iter().map(|v| Value::new(*v)).collect()
+}
+
+fn reps(row: &[Value]) -> Vec<u32> {
+    row.iter().map(|v| v.rep()).collect()
+}
+
+// ---------------------------------------------------------------------------
+// the model
+// ---------------------------------------------------------------------------
+
+#[derive(Clone)]
+struct MRow {
+    vals: Vec<u32>,
+    /// physical-write stamp (for `updates_since`)
+    w: u64,
+}
+
+#[derive(Clone, Default)]
+struct MTable {
+    rows: BTreeMap<Vec<u32>, MRow>,
+    pend_rem: Vec<Vec<u32>>,
+    pend_ins: Vec<Vec<u32>>,
+    wseq: u64,
+}
+
+impl MTable {
+    /// removals first, then inserts in staging order. Returns the number of merge-function calls.
+    fn merge(&mut self, spec: &TSpec) -> u64 {
+        let mut collisions = 0;
+        for k in std::mem::take(&mut self.pend_rem) {
+            self.rows.remove(&k);
+        }
+        for row in std::mem::take(&mut self.pend_ins) {
+            let key = row[..spec.n_keys].to_vec();
+            match self.rows.get_mut(&key) {
+                None => {
+                    self.wseq += 1;
+                    self.rows.insert(key, MRow { vals: row, w: self.wseq });
+                }
+                Some(cur) => {
+                    collisions += 1;
+                    if let Some(out) = merge_rows(spec, &cur.vals, &row) {
+                        self.wseq += 1;
+                        *cur = MRow { vals: out, w: self.wseq };
+                    }
+                }
+            }
+        }
+        collisions
+    }
+    fn all_rows(&self) -> Vec<Vec<u32>> {
+        self.rows.values().map(|r| r.vals.clone()).collect()
+    }
+}
+
+#[derive(Clone, Default)]
+struct MUf {
+    /// (displaced child, timestamp) in displacement order
+    rows: Vec<(u32, u32)>,
+    parent: BTreeMap<u32, u32>,
+    pending: Vec<(u32, u32, u32)>,
+    /// keys that had a row before the table was cleared (triggers of the known finding)
+    ghosts: BTreeSet<u32>,
+}
+
+impl MUf {
+    fn find(&self, mut v: u32) -> u32 {
+        while let Some(p) = self.parent.get(&v) {
+            v = *p;
+        }
+        v
+    }
+    fn all_rows(&self) -> Vec<Vec<u32>> {
+        self.rows.iter().map(|(c, ts)| vec![*c, self.find(*c), *ts]).collect()
+    }
+}
+
+#[derive(Clone)]
+struct Snap {
+    major: u64,
+    minor: usize,
+    w: u64,
+}
+
+// ---------------------------------------------------------------------------
+// lockstep executor
+// ---------------------------------------------------------------------------
+
+type Res = Result<(), ()>;
+
+struct World {
+    db: Database,
+    tabs: Vec<MTable>,
+    muf: MUf,
+    ts: u32,
+    pending: bool,
+    dirty: BTreeSet<usize>,
+    uf_cleared: bool,
+    /// left with staged data while a sibling clone was active (trigger of CLONE_SIG)
+    orphaned: bool,
+    snaps: Vec<Option<Snap>>,
+    majors: Vec<u64>,
+    /// table mutated (by a merge/clear) since creation
+    mutated: Vec<bool>,
+}
+
+impl World {
+    fn fork(&self) -> World {
+        World {
+            db: self.db.clone(),
+            tabs: self.tabs.clone(),
+            muf: self.muf.clone(),
+            ts: self.ts,
+            pending: self.pending,
+            dirty: self.dirty.clone(),
+            uf_cleared: self.uf_cleared,
+            orphaned: false,
+            snaps: self.snaps.clone(),
+            majors: self.majors.clone(),
+            mutated: self.mutated.clone(),
+        }
+    }
+}
+
+struct Cached {
+    plan: CachedPlan,
+    rule: QRule,
+    atoms: Vec<AtomId>,
+    tag: u32,
+}
+
+#[derive(Default)]
+struct Stats {
+    compactions: u64,
+    collisions: u64,
+    idx_reads_after_mut: u64,
+    clears: u64,
+    clones: u64,
+    merges: u64,
+    merges_ge4: u64,
+    rebuilds: u64,
+    rebuild_rows: u64,
+    refresh_rows: u64,
+    queries: u64,
+    query_matches: u64,
+    cached_runs: u64,
+    cached_empty: u64,
+    fast_some: u64,
+    fast_none: u64,
+    max_rows: u64,
+}
+
+struct Exec<'c> {
+    case: &'c Case,
+    ids: Vec<TableId>,
+    uf_id: Option<TableId>,
+    collect: ExternalFunctionId,
+    log: Arc<Mutex<Vec<Vec<u32>>>>,
+    worlds: Vec<World>,
+    cur: usize,
+    plans: Vec<Option<Cached>>,
+    out: Outcome,
+    probe: Probe,
+    st: Stats,
+    /// set while a point lookup on a cleared union-find table is in flight
+    cleared_uf_read: bool,
+    opi: usize,
+    opdesc: String,
+}
+
+fn make_table(spec: &TSpec) -> SortedWritesTable {
+    let sp = spec.clone();
+    SortedWritesTable::new(
+        spec.n_keys,
+        spec.n_cols,
+        spec.sort.map(col),
+        spec.rebuild.iter().map(|c| col(*c)).collect(),
+        Box::new(move |_st, cur, new, out| {
+            let c = reps(cur);
+            let n = reps(new);
+            match merge_rows(&sp, &c, &n) {
+                Some(row) => {
+                    out.extend(row.iter().map(|v| Value::new(*v)));
+                    true
+                }
+                None => false,
+            }
+        }),
+    )
+}
+
+fn scan_rows(tbl: &WrappedTable, sub: &Subset) -> Vec<(usize, Vec<u32>)> {
+    let buf = tbl.scan(sub.as_ref());
+    buf.iter().map(|(id, row)| (id.index(), reps(row))).collect()
+}
+
+fn diff_rows(mut got: Vec<Vec<u32>>, mut want: Vec<Vec<u32>>) -> Option<String> {
+    got.sort();
+    want.sort();
+    if got == want {
+        return None;
+    }
+    let mut missing = vec![];
+    let mut extra = vec![];
+    let (mut i, mut j) = (0, 0);
+    while i < got.len() || j < want.len() {
+        if j >= want.len() || (i < got.len() && got[i] < want[j]) {
+            extra.push(got[i].clone());
+            i += 1;
+        } else if i >= got.len() || want[j] < got[i] {
+            missing.push(want[j].clone());
+            j += 1;
+        } else {
+            i += 1;
+            j += 1;
+        }
+    }
+    missing.truncate(6);
+    extra.truncate(6);
+    Some(format!("got {} rows, model has {}; rows missing from the table's answer: {:?}; rows the model does not have (stale/superseded/duplicated): {:?}", got.len(), want.len(), missing, extra))
+}
+
+impl<'c> Exec<'c> {
+    fn new(case: &'c Case, key: u64) -> Exec<'c> {
+        let mut db = Database::default();
+        let uf_id = if case.uf { Some(db.add_table(DisplacedTable::default(), [], [])) } else { None };
+        let ids: Vec<TableId> = case.tables.iter().map(|s| db.add_table(make_table(s), [], [])).collect();
+        let log: Arc<Mutex<Vec<Vec<u32>>>> = Arc::new(Mutex::new(vec![]));
+        let l2 = log.clone();
+        let collect = db.add_external_function(Box::new(cr::make_external_func(move |_st, args| {
+            l2.lock().unwrap().push(reps(args));
+            Some(Value::new(0))
+        })));
+        let n = case.tables.len() + 1;
+        let w = World {
+            db,
+            tabs: vec![MTable::default(); case.tables.len()],
+            muf: MUf::default(),
+            ts: 0,
+            pending: false,
+            dirty: BTreeSet::new(),
+            uf_cleared: false,
+            orphaned: false,
+            snaps: vec![None; n],
+            majors: vec![0; n],
+            mutated: vec![false; n],
+        };
+        Exec {
+            case,
+            ids,
+            uf_id,
+            collect,
+            log,
+            worlds: vec![w],
+            cur: 0,
+            plans: (0..PLAN_SLOTS).map(|_| None).collect(),
+            out: Outcome::new(key),
+            probe: Probe(key ^ 0x9e3779b97f4a7c15),
+            st: Stats::default(),
+            cleared_uf_read: false,
+            opi: 0,
+            opdesc: String::new(),
+        }
+    }
+
+    fn nt(&self) -> usize {
+        self.case.tables.len()
+    }
+    /// Some(true) = union-find table, Some(false) = sorted table, None = invalid reference
+    fn kind(&self, t: usize) -> Option<bool> {
+        if t < self.nt() {
+            Some(false)
+        } else if t == self.nt() && self.case.uf {
+            Some(true)
+        } else {
+            None
+        }
+    }
+    fn tid(&self, t: usize) -> TableId {
+        if t < self.nt() { self.ids[t] } else { self.uf_id.unwrap() }
+    }
+    fn arity(&self, t: usize) -> usize {
+        if t < self.nt() { self.case.tables[t].n_cols } else { 3 }
+    }
+    fn n_keys(&self, t: usize) -> usize {
+        if t < self.nt() { self.case.tables[t].n_keys } else { 1 }
+    }
+    fn model_rows(&self, w: usize, t: usize) -> Vec<Vec<u32>> {
+        if t < self.nt() { self.worlds[w].tabs[t].all_rows() } else { self.worlds[w].muf.all_rows() }
+    }
+    fn cs_ok(&self, t: usize, cs: &[C]) -> bool {
+        cs.iter().all(|c| {
+            let (a, b) = c_cols(c);
+            a < self.arity(t) && b < self.arity(t)
+        })
+    }
+
+    fn fail(&mut self, sig: &str, detail: String) -> Res {
+        let sig = if self.cleared_uf_read {
+            KNOWN_SIG
+        } else if self.worlds.iter().any(|w| w.orphaned) {
+            CLONE_SIG
+        } else {
+            sig
+        };
+        self.out.fail(sig, format!("op #{} {}: {}", self.opi, self.opdesc, detail));
+        Err(())
+    }
+
+    // ----- mutation helpers -------------------------------------------------
+
+    /// model side of a `merge_all` that already happened on the real database of world `w`
+    fn model_merge(&mut self, w: usize) -> Res {
+        let nt = self.nt();
+        let dirty: Vec<usize> = std::mem::take(&mut self.worlds[w].dirty).into_iter().collect();
+        self.st.merges += 1;
+        if dirty.len() >= 4 {
+            self.st.merges_ge4 += 1;
+        }
+        for t in 0..nt {
+            let had = !self.worlds[w].tabs[t].pend_ins.is_empty() || !self.worlds[w].tabs[t].pend_rem.is_empty();
+            let c = self.worlds[w].tabs[t].merge(&self.case.tables[t]);
+            self.st.collisions += c;
+            if had {
+                self.worlds[w].mutated[t] = true;
+            }
+        }
+        if self.case.uf && !self.worlds[w].muf.pending.is_empty() {
+            // The union-find table decides internally which of the two leaders is displaced
+            // (documented on DisplacedTable); the model learns the choice from the new row and
+            // checks that it is one of the two legal ones.
+            let real: Vec<Vec<u32>> = {
+                let tbl = self.worlds[w].db.get_table(self.uf_id.unwrap());
+                let mut r = scan_rows(tbl, &tbl.all());
+                r.sort();
+                r.into_iter().map(|(_, row)| row).collect()
+            };
+            let pend = std::mem::take(&mut self.worlds[w].muf.pending);
+            for (l, r, ts) in pend {
+                let (a, b) = (self.worlds[w].muf.find(l), self.worlds[w].muf.find(r));
+                if a == b {
+                    continue;
+                }
+                let next = self.worlds[w].muf.rows.len();
+                let Some(row) = real.get(next) else {
+                    return self.fail("uf-union-row-missing", format!("union({l},{r}) at ts {ts} merges two classes (leaders {a},{b}) but the union-find table has no row #{next}; rows: {real:?}"));
+                };
+                let child = row[0];
+                if child != a && child != b {
+                    return self.fail("uf-displaced-not-a-leader", format!("union({l},{r}) must displace one of the leaders {a},{b}; row #{next} is {row:?}"));
+                }
+                let parent = if child == a { b } else { a };
+                self.worlds[w].muf.parent.insert(child, parent);
+                self.worlds[w].muf.rows.push((child, ts));
+                self.worlds[w].mutated[nt] = true;
+            }
+        }
+        self.worlds[w].pending = false;
+        Ok(())
+    }
+
+    fn merge_all(&mut self) -> Res {
+        let w = self.cur;
+        self.worlds[w].db.merge_all();
+        self.model_merge(w)
+    }
+
+    fn settle(&mut self) -> Res {
+        if self.worlds[self.cur].pending { self.merge_all() } else { Ok(()) }
+    }
+
+    fn stage(&mut self, t: usize, items: &[Item], second: &[Item], second_first: bool, fresh_handle: bool) -> Res {
+        let w = self.cur;
+        let spec = &self.case.tables[t];
+        let ts = self.worlds[w].ts;
+        let fix = |it: &Item| -> Option<Item> {
+            match it {
+                Item::Ins(r) if r.len() == spec.n_cols => {
+                    let mut r = r.clone();
+                    if let Some(s) = spec.sort {
+                        r[s] = ts;
+                    }
+                    Some(Item::Ins(r))
+                }
+                Item::Rem(k) if k.len() == spec.n_keys => Some(Item::Rem(k.clone())),
+                _ => None,
+            }
+        };
+        let a: Vec<Item> = items.iter().filter_map(fix).collect();
+        let b: Vec<Item> = second.iter().filter_map(fix).collect();
+        let id = self.ids[t];
+        {
+            let db = &self.worlds[w].db;
+            let mut b1 = db.new_buffer(id);
+            let apply = |buf: &mut Box<dyn cr::MutationBuffer>, its: &[Item]| {
+                for it in its {
+                    match it {
+                        Item::Ins(r) => buf.stage_insert(&vals(r)),
+                        Item::Rem(k) => buf.stage_remove(&vals(k)),
+                    }
+                }
+            };
+            apply(&mut b1, &a);
+            if !b.is_empty() {
+                let mut b2 = if fresh_handle { b1.fresh_handle() } else { db.new_buffer(id) };
+                apply(&mut b2, &b);
+                if second_first {
+                    drop(b2);
+                    drop(b1);
+                } else {
+                    drop(b1);
+                    drop(b2);
+                }
+            }
+        }
+        let (first, then) = if second_first && !b.is_empty() { (&b, &a) } else { (&a, &b) };
+        let m = &mut self.worlds[w].tabs[t];
+        for it in first.iter().chain(then.iter()) {
+            match it {
+                Item::Ins(r) => m.pend_ins.push(r.clone()),
+                Item::Rem(k) => m.pend_rem.push(k.clone()),
+            }
+        }
+        self.worlds[w].pending = true;
+        self.worlds[w].dirty.insert(t);
+        Ok(())
+    }
+
+    fn union(&mut self, pairs: &[(u32, u32)]) -> Res {
+        let w = self.cur;
+        let ts = self.worlds[w].ts;
+        {
+            let mut buf = self.worlds[w].db.new_buffer(self.uf_id.unwrap());
+            for (l, r) in pairs {
+                buf.stage_insert(&[Value::new(*l), Value::new(*r), Value::new(ts)]);
+            }
+        }
+        for (l, r) in pairs {
+            self.worlds[w].muf.pending.push((*l, *r, ts));
+        }
+        self.worlds[w].pending = true;
+        let nt = self.nt();
+        self.worlds[w].dirty.insert(nt);
+        Ok(())
+    }
+
+    fn clear(&mut self, t: usize) -> Res {
+        let w = self.cur;
+        let nt = self.nt();
+        if t == nt {
+            // DEVIATION: Table::clear is documented to drop pending data; DisplacedTable::clear does
+            // not (same incomplete function as the known finding). Settle first so that the check
+            // stays on the single known signature.
+            if !self.worlds[w].muf.pending.is_empty() {
+                self.merge_all()?;
+            }
+            let was_nonempty = !self.worlds[w].muf.rows.is_empty();
+            self.worlds[w].db.clear_table(self.uf_id.unwrap());
+            let m = &mut self.worlds[w].muf;
+            let ghosts: Vec<u32> = m.rows.iter().map(|(c, _)| *c).collect();
+            m.ghosts.extend(ghosts);
+            m.rows.clear();
+            m.parent.clear();
+            m.pending.clear();
+            if was_nonempty {
+                self.worlds[w].uf_cleared = true;
+            }
+            self.worlds[w].snaps[t] = None;
+        } else {
+            self.worlds[w].db.clear_table(self.ids[t]);
+            let m = &mut self.worlds[w].tabs[t];
+            m.rows.clear();
+            m.pend_ins.clear();
+            m.pend_rem.clear();
+        }
+        self.worlds[w].mutated[t] = true;
+        self.st.clears += 1;
+        Ok(())
+    }
+
+    fn rebuild(&mut self, tables: &[usize]) -> Res {
+        if !self.case.uf {
+            return Ok(());
+        }
+        self.settle()?;
+        let w = self.cur;
+        self.worlds[w].ts += 1;
+        let ts = self.worlds[w].ts;
+        let ts_list: Vec<usize> = tables.iter().copied().filter(|t| *t < self.nt()).collect::<BTreeSet<_>>().into_iter().collect();
+        for &t in &ts_list {
+            let spec = &self.case.tables[t];
+            if spec.rebuild.is_empty() {
+                continue;
+            }
+            let world = &mut self.worlds[w];
+            let mut rem = vec![];
+            let mut ins = vec![];
+            for (k, r) in world.tabs[t].rows.iter() {
+                let mut n = r.vals.clone();
+                for &c in &spec.rebuild {
+                    n[c] = world.muf.find(n[c]);
+                }
+                if n != r.vals {
+                    if let Some(s) = spec.sort {
+                        n[s] = ts;
+                    }
+                    rem.push(k.clone());
+                    ins.push(n);
+                }
+            }
+            self.st.rebuild_rows += ins.len() as u64;
+            if !ins.is_empty() {
+                world.dirty.insert(t);
+            }
+            world.tabs[t].pend_rem.extend(rem);
+            world.tabs[t].pend_ins.extend(ins);
+        }
+        let tids: Vec<TableId> = ts_list.iter().map(|t| self.ids[*t]).collect();
+        self.worlds[w].db.apply_rebuild(self.uf_id.unwrap(), &tids, Value::new(ts));
+        self.st.rebuilds += 1;
+        self.model_merge(w)
+    }
+
+    fn refresh(&mut self, tables: &[usize], ids: &[u32]) -> Res {
+        self.settle()?;
+        let w = self.cur;
+        self.worlds[w].ts += 1;
+        let ts = self.worlds[w].ts;
+        let ts_list: Vec<usize> = tables.iter().copied().filter(|t| *t < self.nt()).collect::<BTreeSet<_>>().into_iter().collect();
+        if !ids.is_empty() {
+            for &t in &ts_list {
+                let spec = &self.case.tables[t];
+                if spec.rebuild.is_empty() {
+                    continue;
+                }
+                let world = &mut self.worlds[w];
+                let mut rem = vec![];
+                let mut ins = vec![];
+                for (k, r) in world.tabs[t].rows.iter() {
+                    if spec.rebuild.iter().any(|c| ids.contains(&r.vals[*c])) {
+                        let mut n = r.vals.clone();
+                        if let Some(s) = spec.sort {
+                            n[s] = ts;
+                        }
+                        rem.push(k.clone());
+                        ins.push(n);
+                    }
+                }
+                self.st.refresh_rows += ins.len() as u64;
+                if !ins.is_empty() {
+                    world.dirty.insert(t);
+                }
+                world.tabs[t].pend_rem.extend(rem);
+                world.tabs[t].pend_ins.extend(ins);
+            }
+        }
+        let tids: Vec<TableId> = ts_list.iter().map(|t| self.ids[*t]).collect();
+        self.worlds[w].db.refresh_rows_for_values(&tids, &vals(ids), Value::new(ts));
+        if ids.is_empty() {
+            return Ok(());
+        }
+        self.model_merge(w)
+    }
+}
+
+// ----- reads -----------------------------------------------------------------
+
+impl<'c> Exec<'c> {
+    /// Everything that is compared after every operation: len, full scan (set + timestamp order),
+    /// version monotonicity, updates_since, and (when `probes`) point lookups.
+    fn verify_table(&mut self, w: usize, t: usize, probes: bool) -> Res {
+        let is_uf = t == self.nt();
+        let id = self.tid(t);
+        let want = self.model_rows(w, t);
+        self.st.max_rows = self.st.max_rows.max(want.len() as u64);
+        let (len, rows, major, minor) = {
+            let tbl = self.worlds[w].db.get_table(id);
+            let v = tbl.version();
+            (tbl.len(), scan_rows(tbl, &tbl.all()), v.major.rep(), v.minor.index())
+        };
+        if len != want.len() {
+            return self.fail("len-mismatch", format!("table {t} (world {w}): len() = {len}, model has {} live rows", want.len()));
+        }
+        if let Some(d) = diff_rows(rows.iter().map(|(_, r)| r.clone()).collect(), want.clone()) {
+            return self.fail("scan-mismatch", format!("table {t} (world {w}): scan(all()) differs from the model: {d}"));
+        }
+        // scans are in row order; the sort column must be non-decreasing along it
+        let sort = if is_uf { Some(2) } else { self.case.tables[t].sort };
+        if let Some(s) = sort {
+            let mut sorted = rows.clone();
+            sorted.sort_by_key(|(id, _)| *id);
+            if sorted.windows(2).any(|p| p[0].1[s] > p[1].1[s]) {
+                return self.fail("scan-not-in-timestamp-order", format!("table {t} (world {w}): rows in row-id order are not sorted by the sort column {s}: {:?}", sorted.iter().map(|(_, r)| r[s]).collect::<Vec<_>>()));
+            }
+            if is_uf && sorted.iter().map(|(_, r)| r.clone()).collect::<Vec<_>>() != want {
+                return self.fail("uf-row-order", format!("union-find rows out of displacement order: {sorted:?} vs {want:?}"));
+            }
+        }
+        // version
+        let prev = self.worlds[w].majors[t];
+        if major < prev {
+            return self.fail("major-generation-decreased", format!("table {t}: major generation went from {prev} to {major}"));
+        }
+        self.worlds[w].majors[t] = major;
+        // updates_since against a long-lived snapshot
+        if let Some(snap) = self.worlds[w].snaps[t].clone() {
+            if snap.major == major {
+                let got: Vec<Vec<u32>> = {
+                    let tbl = self.worlds[w].db.get_table(id);
+                    let sub = tbl.updates_since(Offset::from_usize(snap.minor));
+                    scan_rows(tbl, &sub).into_iter().map(|(_, r)| r).collect()
+                };
+                let exp: Vec<Vec<u32>> = if is_uf {
+                    want[snap.minor.min(want.len())..].to_vec()
+                } else {
+                    self.worlds[w].tabs[t].rows.values().filter(|r| r.w > snap.w).map(|r| r.vals.clone()).collect()
+                };
+                if let Some(d) = diff_rows(got, exp) {
+                    return self.fail("updates-since-mismatch", format!("table {t} (world {w}): updates_since(minor {}) within major {major}: {d}", snap.minor));
+                }
+            }
+        }
+        let take = self.worlds[w].snaps[t].as_ref().map(|s| s.major != major).unwrap_or(true) || self.probe.below(5) == 0;
+        if take {
+            let wseq = if is_uf { 0 } else { self.worlds[w].tabs[t].wseq };
+            self.worlds[w].snaps[t] = Some(Snap { major, minor, w: wseq });
+        }
+        if probes {
+            let nk = self.n_keys(t);
+            let mut keys: Vec<Vec<u32>> = vec![];
+            for _ in 0..2 {
+                if !want.is_empty() {
+                    keys.push(want[self.probe.below(want.len())][..nk].to_vec());
+                }
+            }
+            let dom = if is_uf { UF_IDS } else { key_dom(nk) };
+            keys.push((0..nk).map(|_| self.probe.below(dom) as u32).collect());
+            if is_uf {
+                let ghosts: Vec<u32> = self.worlds[w].muf.ghosts.iter().copied().take(2).collect();
+                keys.extend(ghosts.into_iter().map(|g| vec![g]));
+            }
+            for k in keys {
+                self.get(w, t, &k)?;
+            }
+        }
+        Ok(())
+    }
+
+    fn verify_world(&mut self, w: usize, probes: bool) -> Res {
+        let n = self.nt() + self.case.uf as usize;
+        for t in 0..n {
+            self.verify_table(w, t, probes)?;
+        }
+        Ok(())
+    }
+
+    fn get(&mut self, w: usize, t: usize, key: &[u32]) -> Res {
+        if key.len() != self.n_keys(t) {
+            return Ok(());
+        }
+        let is_uf = t == self.nt();
+        let want: Option<Vec<u32>> = if is_uf {
+            let m = &self.worlds[w].muf;
+            m.rows.iter().find(|(c, _)| *c == key[0]).map(|(c, ts)| vec![*c, m.find(*c), *ts])
+        } else {
+            self.worlds[w].tabs[t].rows.get(key).map(|r| r.vals.clone())
+        };
+        let id = self.tid(t);
+        self.cleared_uf_read = is_uf && self.worlds[w].uf_cleared;
+        let kv = vals(key);
+        let pick = self.probe.below(self.arity(t));
+        let (got, gotc) = {
+            let tbl = self.worlds[w].db.get_table(id);
+            let got = tbl.get_row(&kv).map(|r| reps(&r.vals));
+            // DisplacedTable answers column 1 for absent keys too (it is the union-find's find); skip that one
+            let gotc = if is_uf && pick == 1 && want.is_none() { None } else { Some(tbl.get_row_column(&kv, col(pick)).map(|v| v.rep())) };
+            (got, gotc)
+        };
+        if got != want {
+            return self.fail("get-row-mismatch", format!("table {t} (world {w}): get_row({key:?}) = {got:?}, model says {want:?}"));
+        }
+        if let Some(gc) = gotc {
+            let wc = want.as_ref().map(|r| r[pick]);
+            if gc != wc {
+                return self.fail("get-row-column-mismatch", format!("table {t} (world {w}): get_row_column({key:?}, {pick}) = {gc:?}, model says {wc:?}"));
+            }
+        }
+        self.cleared_uf_read = false;
+        if self.worlds[w].mutated[t] {
+            self.st.idx_reads_after_mut += 1;
+        }
+        Ok(())
+    }
+
+    fn base_subset(&self, t: usize, base: &Option<C>) -> (Subset, Vec<C>) {
+        let tbl = self.worlds[self.cur].db.get_table(self.tid(t));
+        if let Some(c) = base {
+            if let Some(s) = tbl.fast_subset(&to_constraint(c)) {
+                return (s, vec![c.clone()]);
+            }
+        }
+        (tbl.all(), vec![])
+    }
+
+    fn filtered(&self, t: usize, cs: &[C]) -> Vec<Vec<u32>> {
+        self.model_rows(self.cur, t).into_iter().filter(|r| cs.iter().all(|c| eval_c(c, r))).collect()
+    }
+
+    fn refine(&mut self, t: usize, cs: &[C], base: &Option<C>, via_ref: bool) -> Res {
+        let mut all_cs = cs.to_vec();
+        let (size, got) = {
+            let (sub, extra) = self.base_subset(t, base);
+            all_cs.extend(extra);
+            let tbl = self.worlds[self.cur].db.get_table(self.tid(t));
+            let rcs: Vec<Constraint> = cs.iter().map(to_constraint).collect();
+            let refined = if via_ref { tbl.refine_ref(sub.as_ref(), &rcs, true) } else { tbl.refine(tbl.refine_live(sub), &rcs) };
+            (refined.size(), scan_rows(tbl, &refined))
+        };
+        let want = self.filtered(t, &all_cs);
+        if size != want.len() {
+            return self.fail("refine-size-mismatch", format!("table {t}: refine{}({cs:?}) on base {base:?} after refine_live has size {size}, model has {} matching live rows", if via_ref { "_ref" } else { "" }, want.len()));
+        }
+        if let Some(d) = diff_rows(got.into_iter().map(|(_, r)| r).collect(), want) {
+            return self.fail("refine-mismatch", format!("table {t}: refine({cs:?}) on base {base:?}: {d}"));
+        }
+        Ok(())
+    }
+
+    fn fast(&mut self, t: usize, c: &C) -> Res {
+        let got = {
+            let tbl = self.worlds[self.cur].db.get_table(self.tid(t));
+            tbl.fast_subset(&to_constraint(c)).map(|s| (s.size(), scan_rows(tbl, &s)))
+        };
+        let Some((size, got)) = got else {
+            self.st.fast_none += 1;
+            return Ok(());
+        };
+        self.st.fast_some += 1;
+        // fast_subset may contain stale rows (documented); a scan of it must not
+        let want = self.filtered(t, std::slice::from_ref(c));
+        if size < want.len() {
+            return self.fail("fast-subset-too-small", format!("table {t}: fast_subset({c:?}) has size {size} < {} matching live rows", want.len()));
+        }
+        if let Some(d) = diff_rows(got.into_iter().map(|(_, r)| r).collect(), want) {
+            return self.fail("fast-subset-mismatch", format!("table {t}: scan(fast_subset({c:?})): {d}"));
+        }
+        Ok(())
+    }
+
+    fn split(&mut self, t: usize, cs: &[C]) -> Res {
+        let (got, fast, slow) = {
+            let tbl = self.worlds[self.cur].db.get_table(self.tid(t));
+            let rcs: Vec<Constraint> = cs.iter().map(to_constraint).collect();
+            let (sub, fast, slow) = tbl.split_fast_slow(&rcs);
+            (scan_rows(tbl, &sub), fast.to_vec(), slow.to_vec())
+        };
+        let fast_c: Vec<C> = cs.iter().filter(|c| fast.contains(&to_constraint(c))).cloned().collect();
+        if fast.len() + slow.len() != cs.len() {
+            return self.fail("split-fast-slow-lost-constraint", format!("table {t}: split_fast_slow({cs:?}) -> fast {fast:?} slow {slow:?}"));
+        }
+        let want = self.filtered(t, &fast_c);
+        if let Some(d) = diff_rows(got.into_iter().map(|(_, r)| r).collect(), want) {
+            return self.fail("split-fast-slow-mismatch", format!("table {t}: scan(split_fast_slow({cs:?}).0) vs rows matching the fast constraints {fast_c:?}: {d}"));
+        }
+        Ok(())
+    }
+
+    fn estimate(&mut self, t: usize, c: &Option<C>) -> Res {
+        let est = self.worlds[self.cur].db.estimate_size(self.tid(t), c.as_ref().map(to_constraint));
+        let want = match c {
+            Some(c) => self.filtered(t, std::slice::from_ref(c)).len(),
+            None => self.model_rows(self.cur, t).len(),
+        };
+        // documented only as an estimate (over-approximating on fast constraints); the planner treats
+        // 0 as "provably empty", so the one thing it must never do is report 0 for a non-empty answer
+        if want > 0 && est == 0 {
+            return self.fail("estimate-zero-for-nonempty", format!("table {t}: estimate_size({c:?}) = 0 but {want} live rows match"));
+        }
+        Ok(())
+    }
+
+    fn page(&mut self, t: usize, cs: &[C], base: &Option<C>, n: usize, cols: &[usize]) -> Res {
+        let n = n.max(1);
+        let mut all_cs = cs.to_vec();
+        let mut got: Vec<Vec<u32>> = vec![];
+        let mut runaway = false;
+        {
+            let (sub, extra) = self.base_subset(t, base);
+            all_cs.extend(extra);
+            let tbl = self.worlds[self.cur].db.get_table(self.tid(t));
+            let rcs: Vec<Constraint> = cs.iter().map(to_constraint).collect();
+            let ccols: Vec<ColumnId> = cols.iter().map(|c| col(*c)).collect();
+            let mut cur = Offset::new(0);
+            let mut rounds = 0;
+            let mut buf = TaggedRowBuffer::new(cols.len());
+            loop {
+                buf.clear();
+                let next = tbl.scan_project(sub.as_ref(), &ccols, cur, n, &rcs, &mut buf);
+                got.extend(buf.iter().map(|(_, r)| reps(r)));
+                rounds += 1;
+                match next {
+                    Some(nx) => cur = nx,
+                    None => break,
+                }
+                if rounds > sub.size() + 2 {
+                    runaway = true;
+                    break;
+                }
+            }
+        }
+        // the unprojected, unconstrained variant: WrappedTable::scan_bounded
+        if cs.is_empty() && !runaway {
+            let mut full: Vec<Vec<u32>> = vec![];
+            {
+                let (sub, _) = self.base_subset(t, base);
+                let tbl = self.worlds[self.cur].db.get_table(self.tid(t));
+                let mut cur = Offset::new(0);
+                let mut rounds = 0;
+                let mut buf = TaggedRowBuffer::new(self.arity(t));
+                loop {
+                    buf.clear();
+                    let next = tbl.scan_bounded(sub.as_ref(), cur, n, &mut buf);
+                    full.extend(buf.iter().map(|(_, r)| reps(r)));
+                    rounds += 1;
+                    match next {
+                        Some(nx) => cur = nx,
+                        None => break,
+                    }
+                    if rounds > sub.size() + 2 {
+                        runaway = true;
+                        break;
+                    }
+                }
+            }
+            if !runaway {
+                if let Some(d) = diff_rows(full, self.filtered(t, &all_cs)) {
+                    return self.fail("paged-scan-mismatch", format!("table {t}: scan_bounded(page {n}, base {base:?}): {d}"));
+                }
+            }
+        }
+        if runaway {
+            return self.fail("scan-bounded-does-not-terminate", format!("table {t}: paging with n={n} needed more rounds than the subset has rows"));
+        }
+        let want: Vec<Vec<u32>> = self.filtered(t, &all_cs).into_iter().map(|r| cols.iter().map(|c| r[*c]).collect()).collect();
+        if let Some(d) = diff_rows(got, want) {
+            return self.fail("paged-scan-mismatch", format!("table {t}: scan_project(cols {cols:?}, page {n}, cs {cs:?}, base {base:?}): {d}"));
+        }
+        Ok(())
+    }
+}
+
+fn key_dom(n_keys: usize) -> usize {
+    match n_keys {
+        0 => 1,
+        1 => 48,
+        2 => 8,
+        3 => 4,
+        _ => 3,
+    }
+}
+
+// ----- rule-set queries --------------------------------------------------------
+
+#[derive(Clone, Debug)]
+enum Slot {
+    Var(usize),
+    Const(u32),
+}
+
+struct Compiled {
+    slots: Vec<Vec<Slot>>,
+    nvars: usize,
+}
+
+fn compile(rule: &QRule, arities: &[usize]) -> Compiled {
+    let mut slots: Vec<Vec<Slot>> = vec![];
+    let mut next = 0;
+    for (a, atom) in rule.atoms.iter().enumerate() {
+        let mut s = vec![];
+        for c in 0..arities[a] {
+            match atom.consts.get(c).copied().flatten() {
+                Some(v) => s.push(Slot::Const(v)),
+                None => {
+                    s.push(Slot::Var(next));
+                    next += 1;
+                }
+            }
+        }
+        slots.push(s);
+    }
+    if let Some((d1, d2)) = rule.dup {
+        if d1 < arities[0] && d2 < arities[0] && d1 != d2 {
+            slots[0][d2] = slots[0][d1].clone();
+        }
+    }
+    for j in [rule.join, rule.join2] {
+        if let (Some((c0, c1)), true) = (j, rule.atoms.len() > 1) {
+            if c0 < arities[0] && c1 < arities[1] {
+                slots[1][c1] = slots[0][c0].clone();
+            }
+        }
+    }
+    // renumber the variables that survived aliasing
+    let mut map: BTreeMap<usize, usize> = BTreeMap::new();
+    for s in slots.iter_mut().flatten() {
+        if let Slot::Var(v) = s {
+            let n = map.len();
+            *v = *map.entry(*v).or_insert(n);
+        }
+    }
+    Compiled { slots, nvars: map.len() }
+}
+
+fn expected_matches(rule: &QRule, comp: &Compiled, extra: &[(usize, C)], rows: &[Vec<Vec<u32>>]) -> Vec<Vec<u32>> {
+    fn bind(slots: &[Slot], row: &[u32], b: &mut Vec<Option<u32>>) -> bool {
+        for (s, v) in slots.iter().zip(row) {
+            match s {
+                Slot::Const(c) => {
+                    if c != v {
+                        return false;
+                    }
+                }
+                Slot::Var(i) => match b[*i] {
+                    Some(x) if x != *v => return false,
+                    _ => b[*i] = Some(*v),
+                },
+            }
+        }
+        true
+    }
+    let ok = |a: usize, r: &[u32]| rule.atoms[a].cs.iter().all(|c| eval_c(c, r)) && extra.iter().all(|(x, c)| *x != a || eval_c(c, r));
+    let mut out = vec![];
+    for r0 in rows[0].iter().filter(|r| ok(0, r)) {
+        let mut b = vec![None; comp.nvars];
+        if !bind(&comp.slots[0], r0, &mut b) {
+            continue;
+        }
+        if rule.atoms.len() == 1 {
+            out.push(b.iter().map(|x| x.unwrap()).collect());
+            continue;
+        }
+        for r1 in rows[1].iter().filter(|r| ok(1, r)) {
+            let mut b1 = b.clone();
+            if bind(&comp.slots[1], r1, &mut b1) {
+                out.push(b1.iter().map(|x| x.unwrap()).collect());
+            }
+        }
+    }
+    out
+}
+
+fn strategy(s: u8) -> PlanStrategy {
+    match s % 3 {
+        0 => PlanStrategy::Gj,
+        1 => PlanStrategy::PureSize,
+        _ => PlanStrategy::MinCover,
+    }
+}
+
+impl<'c> Exec<'c> {
+    fn rule_ok(&self, rule: &QRule) -> bool {
+        !rule.atoms.is_empty()
+            && rule.atoms.len() <= 2
+            && rule.atoms.iter().all(|a| self.kind(a.t).is_some() && self.cs_ok(a.t, &a.cs) && a.consts.len() == self.arity(a.t))
+    }
+
+    /// add `rule` to `rsb`; the action reports `[tag, var0, var1, ..]` to the collector
+    fn add_rule(&self, rsb: &mut RuleSetBuilder, rule: &QRule, comp: &Compiled, tag: u32) -> Result<(cr::RuleId, Vec<AtomId>), String> {
+        let mut qb = rsb.new_rule();
+        qb.set_plan_strategy(strategy(rule.strat));
+        qb.set_no_decomp(rule.no_decomp);
+        let vars: Vec<Variable> = (0..comp.nvars).map(|_| qb.new_var()).collect();
+        let mut atom_ids = vec![];
+        for (a, atom) in rule.atoms.iter().enumerate() {
+            let entries: Vec<QueryEntry> = comp.slots[a]
+                .iter()
+                .map(|s| match s {
+                    Slot::Var(i) => QueryEntry::Var(vars[*i]),
+                    Slot::Const(c) => QueryEntry::Const(Value::new(*c)),
+                })
+                .collect();
+            let cs: Vec<Constraint> = atom.cs.iter().map(to_constraint).collect();
+            atom_ids.push(qb.add_atom(self.tid(atom.t), &entries, &cs).map_err(|e| format!("add_atom: {e}"))?);
+        }
+        let mut rb = qb.build();
+        let mut args: Vec<QueryEntry> = vec![QueryEntry::Const(Value::new(tag))];
+        args.extend(vars.iter().map(|v| QueryEntry::Var(*v)));
+        rb.call_external(self.collect, &args).map_err(|e| format!("call_external: {e}"))?;
+        Ok((rb.build(), atom_ids))
+    }
+
+    fn note_index_reads(&mut self, rule: &QRule, extra: &[(usize, C)]) {
+        let w = self.cur;
+        for (a, atom) in rule.atoms.iter().enumerate() {
+            let constrained = !atom.cs.is_empty() || atom.consts.iter().any(|c| c.is_some()) || extra.iter().any(|(x, _)| *x == a) || rule.atoms.len() > 1;
+            if constrained && self.worlds[w].mutated[atom.t] {
+                self.st.idx_reads_after_mut += 1;
+            }
+        }
+    }
+
+    fn set_uf_flag(&mut self, rule: &QRule) {
+        let nt = self.nt();
+        if self.worlds[self.cur].uf_cleared && rule.atoms.iter().any(|a| a.t == nt) {
+            self.cleared_uf_read = true;
+        }
+    }
+
+    fn compare_matches(&mut self, what: &str, tag: u32, want: Vec<Vec<u32>>, log: &[Vec<u32>]) -> Res {
+        let got: Vec<Vec<u32>> = log.iter().filter(|r| r[0] == tag).map(|r| r[1..].to_vec()).collect();
+        self.st.query_matches += got.len() as u64;
+        if let Some(d) = diff_rows(got, want) {
+            return self.fail("query-mismatch", format!("{what}: matches reported to the external function differ from the model's join: {d}"));
+        }
+        Ok(())
+    }
+
+    fn query(&mut self, rules: &[QRule]) -> Res {
+        let rules: Vec<&QRule> = rules.iter().filter(|r| self.rule_ok(r)).collect();
+        if rules.is_empty() {
+            return Ok(());
+        }
+        let w = self.cur;
+        let mut wants = vec![];
+        let mut comps = vec![];
+        for r in &rules {
+            let ar: Vec<usize> = r.atoms.iter().map(|a| self.arity(a.t)).collect();
+            let comp = compile(r, &ar);
+            let rows: Vec<Vec<Vec<u32>>> = r.atoms.iter().map(|a| self.model_rows(w, a.t)).collect();
+            wants.push(expected_matches(r, &comp, &[], &rows));
+            comps.push(comp);
+            self.note_index_reads(r, &[]);
+            self.set_uf_flag(r);
+        }
+        self.log.lock().unwrap().clear();
+        let mut db = std::mem::take(&mut self.worlds[w].db);
+        let res: Result<(), String> = (|| {
+            let mut rsb = RuleSetBuilder::new(&mut db);
+            for (i, r) in rules.iter().enumerate() {
+                self.add_rule(&mut rsb, r, &comps[i], i as u32)?;
+            }
+            let rs = rsb.build();
+            db.run_rule_set(&rs, ReportLevel::TimeOnly, None);
+            Ok(())
+        })();
+        self.worlds[w].db = db;
+        if let Err(e) = res {
+            return self.fail("query-build-error", e);
+        }
+        self.st.queries += 1;
+        let log = std::mem::take(&mut *self.log.lock().unwrap());
+        for (i, want) in wants.into_iter().enumerate() {
+            self.compare_matches(&format!("rule {i} of {:?}", rules[i]), i as u32, want, &log)?;
+        }
+        self.cleared_uf_read = false;
+        // run_rule_set ends with merge_all
+        self.model_merge(w)
+    }
+
+    fn cache_plan(&mut self, slot: usize, rule: &QRule) -> Res {
+        if !self.rule_ok(rule) {
+            return Ok(());
+        }
+        let slot = slot % PLAN_SLOTS;
+        let w = self.cur;
+        let ar: Vec<usize> = rule.atoms.iter().map(|a| self.arity(a.t)).collect();
+        let comp = compile(rule, &ar);
+        let tag = 100 + slot as u32;
+        self.set_uf_flag(rule);
+        let mut db = std::mem::take(&mut self.worlds[w].db);
+        let res = (|| {
+            let mut rsb = RuleSetBuilder::new(&mut db);
+            let (rid, atoms) = self.add_rule(&mut rsb, rule, &comp, tag)?;
+            let rs = rsb.build();
+            Ok::<_, String>((rs.build_cached_plan(rid), atoms))
+        })();
+        self.worlds[w].db = db;
+        self.cleared_uf_read = false;
+        match res {
+            Ok((plan, atoms)) => {
+                self.plans[slot] = Some(Cached { plan, rule: rule.clone(), atoms, tag });
+                Ok(())
+            }
+            Err(e) => self.fail("query-build-error", e),
+        }
+    }
+
+    fn run_cached(&mut self, slot: usize, extra: &[(usize, C)]) -> Res {
+        let slot = slot % PLAN_SLOTS;
+        let Some(cached) = self.plans[slot].take() else { return Ok(()) };
+        let r = self.run_cached_inner(&cached, extra);
+        self.plans[slot] = Some(cached);
+        r
+    }
+
+    fn run_cached_inner(&mut self, cached: &Cached, extra: &[(usize, C)]) -> Res {
+        let w = self.cur;
+        let rule = &cached.rule;
+        let extra: Vec<(usize, C)> = extra.iter().filter(|(a, c)| *a < rule.atoms.len() && self.cs_ok(rule.atoms[*a].t, std::slice::from_ref(c))).cloned().collect();
+        let ar: Vec<usize> = rule.atoms.iter().map(|a| self.arity(a.t)).collect();
+        let comp = compile(rule, &ar);
+        let rows: Vec<Vec<Vec<u32>>> = rule.atoms.iter().map(|a| self.model_rows(w, a.t)).collect();
+        let want = expected_matches(rule, &comp, &extra, &rows);
+        self.note_index_reads(rule, &extra);
+        self.set_uf_flag(rule);
+        self.log.lock().unwrap().clear();
+        let mut db = std::mem::take(&mut self.worlds[w].db);
+        let ran = {
+            let mut rsb = RuleSetBuilder::new(&mut db);
+            let ex: Vec<(AtomId, Constraint)> = extra.iter().map(|(a, c)| (cached.atoms[*a], to_constraint(c))).collect();
+            let added = rsb.add_rule_from_cached_plan(&cached.plan, &ex).is_some();
+            let rs = rsb.build();
+            if added {
+                db.run_rule_set(&rs, ReportLevel::TimeOnly, None);
+            }
+            added
+        };
+        self.worlds[w].db = db;
+        self.st.cached_runs += 1;
+        let log = std::mem::take(&mut *self.log.lock().unwrap());
+        if !ran {
+            self.st.cached_empty += 1;
+            if !want.is_empty() {
+                return self.fail("cached-plan-wrongly-empty", format!("add_rule_from_cached_plan({rule:?}, extra {extra:?}) returned None (provably empty) but the model has {} matches, e.g. {:?}", want.len(), want[0]));
+            }
+            self.cleared_uf_read = false;
+            return Ok(());
+        }
+        self.compare_matches(&format!("cached plan {rule:?} + extra {extra:?}"), cached.tag, want, &log)?;
+        self.cleared_uf_read = false;
+        self.model_merge(w)
+    }
+}
+
+// ----- op dispatch -----------------------------------------------------------------
+
+fn op_name(op: &Op) -> &'static str {
+    match op {
+        Op::Stage { .. } => "stage",
+        Op::Union { .. } => "union",
+        Op::Merge => "merge_all",
+        Op::Tick { .. } => "tick",
+        Op::Clear { .. } => "clear_table",
+        Op::CloneDb => "clone",
+        Op::Switch { .. } => "switch",
+        Op::Rebuild { .. } => "apply_rebuild",
+        Op::Refresh { .. } => "refresh_rows",
+        Op::Get { .. } => "get_row",
+        Op::Refine { .. } => "refine",
+        Op::Fast { .. } => "fast_subset",
+        Op::Split { .. } => "split_fast_slow",
+        Op::Estimate { .. } => "estimate_size",
+        Op::Page { .. } => "paged_scan",
+        Op::Query { .. } => "query",
+        Op::CachePlan { .. } => "cache_plan",
+        Op::RunCached { .. } => "run_cached",
+    }
+}
+
+impl<'c> Exec<'c> {
+    fn step(&mut self, op: &Op) -> Res {
+        let nt = self.nt();
+        let mutating;
+        match op {
+            Op::Stage { t, items, second, second_first, fresh_handle } => {
+                mutating = false;
+                match self.kind(*t) {
+                    Some(false) => self.stage(*t, items, second, *second_first, *fresh_handle)?,
+                    _ => {}
+                }
+            }
+            Op::Union { pairs } => {
+                mutating = false;
+                if self.case.uf {
+                    let ok: Vec<(u32, u32)> = pairs.iter().copied().filter(|(l, r)| (*l as usize) < UF_IDS && (*r as usize) < UF_IDS).collect();
+                    self.union(&ok)?;
+                }
+            }
+            Op::Merge => {
+                mutating = true;
+                self.merge_all()?;
+            }
+            Op::Tick { by } => {
+                mutating = self.worlds[self.cur].pending;
+                self.settle()?;
+                self.worlds[self.cur].ts += (*by).clamp(1, 3);
+            }
+            Op::Clear { t } => {
+                mutating = true;
+                if self.kind(*t).is_some() {
+                    self.clear(*t)?;
+                }
+            }
+            Op::CloneDb => {
+                mutating = true;
+                // precondition of every real caller: nothing staged when a database is cloned
+                self.settle()?;
+                let f = self.worlds[self.cur].fork();
+                if self.worlds.len() < MAX_WORLDS {
+                    self.worlds.push(f);
+                } else {
+                    let victim = (self.cur + 1) % self.worlds.len();
+                    self.worlds[victim] = f;
+                }
+                self.st.clones += 1;
+            }
+            Op::Switch { w } => {
+                let target = *w % self.worlds.len();
+                let pending = self.worlds[self.cur].pending;
+                mutating = pending && !self.case.raw_switch;
+                if pending && target != self.cur {
+                    if self.case.raw_switch {
+                        self.worlds[self.cur].orphaned = true;
+                    } else {
+                        self.out.count("excluded_known_clone_shared_notifications", 1);
+                        self.settle()?;
+                    }
+                }
+                self.cur = target;
+            }
+            Op::Rebuild { tables } => {
+                mutating = true;
+                self.rebuild(tables)?;
+            }
+            Op::Refresh { tables, ids } => {
+                mutating = true;
+                self.refresh(tables, ids)?;
+            }
+            Op::Get { t, key } => {
+                mutating = false;
+                if self.kind(*t).is_some() {
+                    self.get(self.cur, *t, key)?;
+                }
+            }
+            Op::Refine { t, cs, base, via_ref } => {
+                mutating = false;
+                if self.kind(*t).is_some() && self.cs_ok(*t, cs) && self.cs_ok(*t, base.as_slice()) {
+                    self.cleared_uf_read = *t == nt && self.worlds[self.cur].uf_cleared;
+                    self.refine(*t, cs, base, *via_ref)?;
+                }
+            }
+            Op::Fast { t, c } => {
+                mutating = false;
+                if self.kind(*t).is_some() && self.cs_ok(*t, std::slice::from_ref(c)) {
+                    self.cleared_uf_read = *t == nt && self.worlds[self.cur].uf_cleared;
+                    self.fast(*t, c)?;
+                }
+            }
+            Op::Split { t, cs } => {
+                mutating = false;
+                if self.kind(*t).is_some() && self.cs_ok(*t, cs) {
+                    self.cleared_uf_read = *t == nt && self.worlds[self.cur].uf_cleared;
+                    self.split(*t, cs)?;
+                }
+            }
+            Op::Estimate { t, c } => {
+                mutating = false;
+                if self.kind(*t).is_some() && self.cs_ok(*t, c.as_slice()) {
+                    self.cleared_uf_read = *t == nt && self.worlds[self.cur].uf_cleared;
+                    self.estimate(*t, c)?;
+                }
+            }
+            Op::Page { t, cs, base, n, cols } => {
+                mutating = false;
+                let ar = self.kind(*t).map(|_| self.arity(*t)).unwrap_or(0);
+                if ar > 0 && self.cs_ok(*t, cs) && self.cs_ok(*t, base.as_slice()) && !cols.is_empty() && cols.iter().all(|c| *c < ar) {
+                    self.cleared_uf_read = *t == nt && self.worlds[self.cur].uf_cleared;
+                    self.page(*t, cs, base, *n, cols)?;
+                }
+            }
+            Op::Query { rules } => {
+                mutating = self.worlds[self.cur].pending;
+                self.query(rules)?;
+            }
+            Op::CachePlan { slot, rule } => {
+                mutating = false;
+                self.cache_plan(*slot, rule)?;
+            }
+            Op::RunCached { slot, extra } => {
+                mutating = self.worlds[self.cur].pending;
+                self.run_cached(*slot, extra)?;
+            }
+        }
+        self.cleared_uf_read = false;
+        // reads interleaved everywhere: the active database is read back completely after every operation
+        self.verify_world(self.cur, true)?;
+        if mutating {
+            // ... and the other (cloned) databases must not have moved
+            for w in 0..self.worlds.len() {
+                if w != self.cur {
+                    self.verify_world(w, false)?;
+                }
+            }
+        }
+        Ok(())
+    }
+
+    fn run(&mut self) {
+        let case: &'c Case = self.case;
+        for (i, op) in case.ops.iter().enumerate() {
+            self.opi = i;
+            self.opdesc = {
+                let s = format!("{op:?}");
+                if s.len() > 300 { format!("{}…", &s[..300]) } else { s }
+            };
+            self.out.count(format!("op_{}", op_name(op)), 1);
+            let majors_before: Vec<Vec<u64>> = self.worlds.iter().map(|w| w.majors.clone()).collect();
+            let r = fw::catch(|| self.step(op));
+            match r {
+                Ok(Ok(())) => {}
+                Ok(Err(())) => break,
+                Err(msg) => {
+                    if self.worlds.iter().any(|w| w.orphaned) && !self.cleared_uf_read {
+                        self.out.fail(CLONE_SIG, format!("op #{i} {} panicked: {msg}", self.opdesc));
+                    } else if self.cleared_uf_read {
+                        self.out.fail(KNOWN_SIG, format!("op #{i} {}: a read on the union-find table after clear_table panicked: {msg}", self.opdesc));
+                    } else if self.worlds.iter().any(|w| w.uf_cleared) && msg.contains("malformed range") {
+                        // seen when only `lookup_table` is repaired: DisplacedTable::clear keeps major generation 0 and
+                        // shrinks `minor`, so indexes / subset trackers built before the clear refresh incrementally
+                        // from an offset beyond the table's end
+                        self.out.fail("displaced-clear-keeps-version", format!("op #{i} {} panicked after clear_table on the union-find table: {msg}", self.opdesc));
+                    } else {
+                        self.out.fail(format!("panic:{}", fw::panic_key(&msg)), format!("op #{i} {} panicked: {msg}", self.opdesc));
+                    }
+                    break;
+                }
+            }
+            // a major-generation bump that is not explained by clear_table is a compaction
+            if !matches!(op, Op::Clear { .. }) {
+                for (w, before) in majors_before.iter().enumerate() {
+                    if let Some(world) = self.worlds.get(w) {
+                        for (t, m) in before.iter().enumerate() {
+                            if t < self.nt() && world.majors[t] > *m && !matches!(op, Op::CloneDb) {
+                                self.st.compactions += 1;
+                            }
+                        }
+                    }
+                }
+            }
+        }
+    }
+}
+
+fn check_case(case: &Case) -> Outcome {
+    let key = fnv_str(&serde_json::to_string(case).unwrap_or_default());
+    let mut ex = Exec::new(case, key);
+    ex.run();
+    let st = &ex.st;
+    let mut out = std::mem::replace(&mut ex.out, Outcome::new(key));
+    let idx = st.idx_reads_after_mut > 0;
+    out.nontrivial = st.compactions >= 1 && st.collisions >= 1 && idx;
+    out.class(format!("tables={}", case.tables.len()));
+    out.class(if case.uf { "with-union-find-table" } else { "no-union-find-table" });
+    if case.pool {
+        out.class("4-shards(pool)");
+    }
+    for t in &case.tables {
+        out.class(format!("table:keys={}", t.n_keys));
+        out.class(format!("table:{}", if t.sort.is_some() { "sorted" } else { "unsorted" }));
+        out.class(format!("table:merge={:?}", t.merge));
+        if !t.rebuild.is_empty() {
+            out.class("table:rebuildable");
+        }
+    }
+    out.class(format!("ops:{}", match case.ops.len() { 0..=4 => "0-4", 5..=19 => "5-19", 20..=59 => "20-59", 60..=149 => "60-149", _ => "150+" }));
+    out.class(format!("compactions:{}", match st.compactions { 0 => "0", 1 => "1", 2..=4 => "2-4", _ => "5+" }));
+    if st.collisions > 0 {
+        out.class("key-collision");
+    }
+    if st.clears > 0 {
+        out.class("clear_table");
+    }
+    if st.clones > 0 {
+        out.class("clone");
+    }
+    if st.merges_ge4 > 0 {
+        out.class("merge_all>=4-dirty-tables");
+    }
+    if st.rebuild_rows > 0 {
+        out.class("rebuild-rewrote-rows");
+    }
+    if st.refresh_rows > 0 {
+        out.class("refresh-rewrote-rows");
+    }
+    if st.max_rows >= 17 {
+        out.class("table>=17-rows");
+    }
+    out.count("compactions", st.compactions);
+    out.count("merge_fn_calls", st.collisions);
+    out.count("index_reads_after_mutation", st.idx_reads_after_mut);
+    out.count("merge_all", st.merges);
+    out.count("clears", st.clears);
+    out.count("clones", st.clones);
+    out.count("rebuild_rows", st.rebuild_rows);
+    out.count("refresh_rows", st.refresh_rows);
+    out.count("rule_set_queries", st.queries);
+    out.count("query_matches", st.query_matches);
+    out.count("cached_plan_runs", st.cached_runs);
+    out.count("cached_plan_provably_empty", st.cached_empty);
+    out.count("fast_subset_some", st.fast_some);
+    out.count("fast_subset_none", st.fast_none);
+    if case.steered > 0 {
+        out.count("excluded_known_displaced_clear", case.steered as u64);
+    }
+    out
+}
+
+// ---------------------------------------------------------------------------
+// generator (decoder from the choice stream)
+// ---------------------------------------------------------------------------
+
+#[derive(Clone, Copy, PartialEq, Eq)]
+pub enum Profile {
+    /// 1-6 tables, every kind of operation
+    General,
+    /// 1-2 tables, fill / purge / churn heavy: crosses the compaction threshold again and again
+    Churn,
+}
+
+fn key_space(n_keys: usize) -> usize {
+    match n_keys {
+        0 => 1,
+        1 => 48,
+        2 => 64,
+        3 => 64,
+        _ => 81,
+    }
+}
+
+fn key_of(n_keys: usize, i: usize) -> Vec<u32> {
+    let d = key_dom(n_keys);
+    let mut i = i % key_space(n_keys);
+    (0..n_keys)
+        .map(|_| {
+            let v = (i % d) as u32;
+            i /= d;
+            v
+        })
+        .collect()
+}
+
+fn row_of(spec: &TSpec, i: usize, seed: usize) -> Vec<u32> {
+    let mut row = key_of(spec.n_keys, i);
+    for c in spec.n_keys..spec.n_cols {
+        let dom = if spec.rebuild.contains(&c) { 12 } else { 6 };
+        row.push(((seed + (i % 7) * (c + 1) + c) % dom) as u32);
+    }
+    row
+}
+
+struct Dec<'a, 'b> {
+    src: &'a mut Src<'b>,
+    tables: Vec<TSpec>,
+    uf: bool,
+    profile: Profile,
+    dts: u32,
+    ops: Vec<Op>,
+    steered: u32,
+    plans: Vec<Option<QRule>>,
+}
+
+impl Dec<'_, '_> {
+    fn nt(&self) -> usize {
+        self.tables.len()
+    }
+    fn arity(&self, t: usize) -> usize {
+        if t < self.nt() { self.tables[t].n_cols } else { 3 }
+    }
+    fn any_table(&mut self) -> usize {
+        self.src.below(self.nt() + self.uf as usize)
+    }
+    fn sorted_table(&mut self) -> usize {
+        self.src.below(self.nt())
+    }
+    fn key_idx(&mut self, t: usize) -> usize {
+        let ks = key_space(self.tables[t].n_keys);
+        if self.src.chance(3, 5) { self.src.below(ks.min(8)) } else { self.src.below(ks) }
+    }
+    fn col_val(&mut self, t: usize, c: usize) -> u32 {
+        if t == self.nt() {
+            return if c == 2 { self.src.below(self.dts as usize + 2) as u32 } else { self.src.below(UF_IDS) as u32 };
+        }
+        let spec = &self.tables[t];
+        if Some(c) == spec.sort {
+            self.src.below(self.dts as usize + 2) as u32
+        } else if c < spec.n_keys {
+            self.src.below(key_dom(spec.n_keys)) as u32
+        } else if spec.rebuild.contains(&c) {
+            self.src.below(12) as u32
+        } else {
+            self.src.below(6) as u32
+        }
+    }
+    fn sort_col(&self, t: usize) -> Option<usize> {
+        if t == self.nt() { Some(2) } else { self.tables[t].sort }
+    }
+    fn constraint(&mut self, t: usize, fast_only: bool) -> C {
+        let ar = self.arity(t);
+        let sort = self.sort_col(t);
+        if fast_only {
+            // constraints a cached plan accepts: comparisons on the sort column, EqConst on cacheable columns
+            if let (Some(s), true) = (sort, self.src.chance(2, 3)) {
+                let v = self.col_val(t, s);
+                return match self.src.below(5) {
+                    0 => C::EqC(s, v),
+                    1 => C::Lt(s, v),
+                    2 => C::Gt(s, v),
+                    3 => C::Le(s, v),
+                    _ => C::Ge(s, v),
+                };
+            }
+            let mut c = self.src.below(ar);
+            if t == self.nt() && c == 1 {
+                c = 0;
+            }
+            let v = self.col_val(t, c);
+            return C::EqC(c, v);
+        }
+        let c = match sort {
+            Some(s) if self.src.chance(2, 5) => s,
+            _ => self.src.below(ar),
+        };
+        let v = self.col_val(t, c);
+        match self.src.below(8) {
+            0 => C::Eq(c, self.src.below(ar)),
+            1 | 2 => C::EqC(c, v),
+            3 => C::Lt(c, v),
+            4 => C::Gt(c, v),
+            5 => C::Le(c, v),
+            6 => C::Ge(c, v),
+            // "greater than a small value on column 0": matches the stale marker if a scan forgets to skip stale rows
+            _ => C::Gt(0, self.src.below(3) as u32),
+        }
+    }
+    fn constraints(&mut self, t: usize, max: usize) -> Vec<C> {
+        let n = self.src.below(max + 1);
+        (0..n).map(|_| self.constraint(t, false)).collect()
+    }
+    fn opt_base(&mut self, t: usize) -> Option<C> {
+        if self.src.chance(1, 3) { Some(self.constraint(t, true)) } else { None }
+    }
+    fn items(&mut self, t: usize, n: usize) -> Vec<Item> {
+        (0..n)
+            .map(|_| {
+                let i = self.key_idx(t);
+                if self.src.chance(3, 10) {
+                    Item::Rem(key_of(self.tables[t].n_keys, i))
+                } else {
+                    let seed = self.src.below(12);
+                    Item::Ins(row_of(&self.tables[t], i, seed))
+                }
+            })
+            .collect()
+    }
+    fn rule(&mut self) -> QRule {
+        let t0 = self.any_table();
+        let two = self.src.chance(1, 2);
+        let mut atoms = vec![QAtom { t: t0, cs: self.constraints(t0, 2), consts: vec![None; self.arity(t0)] }];
+        let mut join = None;
+        let mut join2 = None;
+        let mut protected: Vec<Vec<usize>> = vec![vec![], vec![]];
+        if two {
+            let t1 = self.any_table();
+            atoms.push(QAtom { t: t1, cs: self.constraints(t1, 1), consts: vec![None; self.arity(t1)] });
+            let j = (self.src.below(self.arity(t0)), self.src.below(self.arity(t1)));
+            protected[0].push(j.0);
+            protected[1].push(j.1);
+            join = Some(j);
+            if self.arity(t0) >= 2 && self.arity(t1) >= 2 && self.src.chance(2, 5) {
+                let a0 = (j.0 + 1 + self.src.below(self.arity(t0) - 1)) % self.arity(t0);
+                let a1 = (j.1 + 1 + self.src.below(self.arity(t1) - 1)) % self.arity(t1);
+                protected[0].push(a0);
+                protected[1].push(a1);
+                join2 = Some((a0, a1));
+            }
+        }
+        let mut dup = None;
+        if self.arity(t0) >= 2 && self.src.chance(1, 8) {
+            let d1 = self.src.below(self.arity(t0));
+            let d2 = (d1 + 1 + self.src.below(self.arity(t0) - 1)) % self.arity(t0);
+            // never alias the join column away
+            if !protected[0].contains(&d2) {
+                protected[0].push(d1);
+                protected[0].push(d2);
+                dup = Some((d1, d2));
+            }
+        }
+        for a in 0..atoms.len() {
+            let ar = self.arity(atoms[a].t);
+            if ar >= 2 && self.src.chance(1, 3) {
+                let c = self.src.below(ar);
+                if !protected[a].contains(&c) {
+                    atoms[a].consts[c] = Some(self.col_val(atoms[a].t, c));
+                }
+            }
+        }
+        QRule { atoms, join, join2, dup, strat: self.src.below(3) as u8, no_decomp: self.src.bool() }
+    }
+
+    fn push_merge(&mut self) {
+        self.ops.push(Op::Merge);
+        if self.src.chance(1, 2) {
+            let by = 1 + self.src.below(2) as u32;
+            self.dts += by;
+            self.ops.push(Op::Tick { by });
+        }
+    }
+
+    fn op(&mut self) {
+        let churn = self.profile == Profile::Churn;
+        let has_rebuild = self.uf && self.tables.iter().any(|t| !t.rebuild.is_empty());
+        let has_refresh = self.tables.iter().any(|t| !t.rebuild.is_empty());
+        let n_all = self.nt() + self.uf as usize;
+        let weights: [usize; 21] = [
+            if churn { 8 } else { 18 },           // 0 small stage
+            if churn { 16 } else { 7 },           // 1 fill
+            if churn { 12 } else { 4 },           // 2 purge
+            if self.uf { 6 } else { 0 },          // 3 union
+            if churn { 18 } else { 12 },          // 4 merge
+            3,                                    // 5 tick
+            2,                                    // 6 clear
+            if churn { 1 } else { 2 },            // 7 clone
+            if churn { 1 } else { 3 },            // 8 switch
+            if has_rebuild { 4 } else { 0 },      // 9 rebuild
+            if has_refresh { 3 } else { 0 },      // 10 refresh
+            3,                                    // 11 get
+            5,                                    // 12 refine
+            4,                                    // 13 fast
+            2,                                    // 14 split
+            2,                                    // 15 estimate
+            4,                                    // 16 page
+            8,                                    // 17 query
+            2,                                    // 18 cache plan
+            4,                                    // 19 run cached
+            if n_all >= 4 { 3 } else { 0 },       // 20 >=4 dirty tables then merge
+        ];
+        match self.src.pick_weighted(&weights) {
+            0 => {
+                let t = self.sorted_table();
+                let n = 1 + self.src.below(4);
+                let items = self.items(t, n);
+                let second = if self.src.chance(1, 4) {
+                    let n2 = 1 + self.src.below(3);
+                    self.items(t, n2)
+                } else {
+                    vec![]
+                };
+                self.ops.push(Op::Stage { t, items, second, second_first: self.src.bool(), fresh_handle: self.src.bool() });
+            }
+            1 => {
+                let t = self.sorted_table();
+                let ks = key_space(self.tables[t].n_keys);
+                let base = if self.src.chance(2, 3) { 0 } else { self.src.below(ks) };
+                let n = 4 + self.src.below(40);
+                let seed = self.src.below(12);
+                let items = (0..n).map(|i| Item::Ins(row_of(&self.tables[t], base + i, seed))).collect();
+                self.ops.push(Op::Stage { t, items, second: vec![], second_first: false, fresh_handle: false });
+            }
+            2 => {
+                let t = self.sorted_table();
+                let ks = key_space(self.tables[t].n_keys);
+                let base = if self.src.chance(2, 3) { 0 } else { self.src.below(ks) };
+                let n = 8 + self.src.below(40);
+                let items = (0..n).map(|i| Item::Rem(key_of(self.tables[t].n_keys, base + i))).collect();
+                self.ops.push(Op::Stage { t, items, second: vec![], second_first: false, fresh_handle: false });
+            }
+            3 => {
+                let n = 1 + self.src.below(3);
+                let pairs = (0..n).map(|_| (self.src.below(UF_IDS) as u32, self.src.below(UF_IDS) as u32)).collect();
+                self.ops.push(Op::Union { pairs });
+            }
+            4 => self.push_merge(),
+            5 => {
+                let by = 1 + self.src.below(3) as u32;
+                self.dts += by;
+                self.ops.push(Op::Tick { by });
+            }
+            6 => {
+                let t = self.any_table();
+                if t == self.nt() && EXCLUDE_DISPLACED_CLEAR {
+                    // known finding displaced-clear-stale-lookup: never clear the union-find table here
+                    self.steered += 1;
+                    if self.nt() > 0 {
+                        let t = self.sorted_table();
+                        self.ops.push(Op::Clear { t });
+                    }
+                } else {
+                    self.ops.push(Op::Clear { t });
+                }
+            }
+            7 => self.ops.push(Op::CloneDb),
+            8 => {
+                let w = self.src.below(MAX_WORLDS);
+                self.ops.push(Op::Switch { w });
+            }
+            9 => {
+                let tables = (0..self.nt()).filter(|_| self.src.chance(3, 4)).collect();
+                self.dts += 1;
+                self.ops.push(Op::Rebuild { tables });
+            }
+            10 => {
+                let tables = (0..self.nt()).filter(|_| self.src.chance(3, 4)).collect();
+                let n = self.src.below(4);
+                let ids = (0..n).map(|_| self.src.below(12) as u32).collect();
+                self.dts += 1;
+                self.ops.push(Op::Refresh { tables, ids });
+            }
+            11 => {
+                let t = self.any_table();
+                let key = if t == self.nt() { vec![self.src.below(UF_IDS) as u32] } else { key_of(self.tables[t].n_keys, self.key_idx(t)) };
+                self.ops.push(Op::Get { t, key });
+            }
+            12 => {
+                let t = self.any_table();
+                let cs = self.constraints(t, 3);
+                let base = self.opt_base(t);
+                self.ops.push(Op::Refine { t, cs, base, via_ref: self.src.bool() });
+            }
+            13 => {
+                let t = self.any_table();
+                let c = if self.src.chance(4, 5) { self.constraint(t, true) } else { self.constraint(t, false) };
+                self.ops.push(Op::Fast { t, c });
+            }
+            14 => {
+                let t = self.any_table();
+                let mut cs = self.constraints(t, 2);
+                cs.push(self.constraint(t, true));
+                self.ops.push(Op::Split { t, cs });
+            }
+            15 => {
+                let t = self.any_table();
+                let c = if self.src.chance(3, 4) {
+                    let fast_only = self.src.bool();
+                    Some(self.constraint(t, fast_only))
+                } else {
+                    None
+                };
+                self.ops.push(Op::Estimate { t, c });
+            }
+            16 => {
+                let t = self.any_table();
+                let cs = self.constraints(t, 2);
+                let base = self.opt_base(t);
+                let n = 1 + self.src.below(9);
+                let ar = self.arity(t);
+                let nc = 1 + self.src.below(ar.min(4));
+                let cols = (0..nc).map(|_| self.src.below(ar)).collect();
+                self.ops.push(Op::Page { t, cs, base, n, cols });
+            }
+            17 => {
+                let n = if self.src.chance(1, 5) { 2 } else { 1 };
+                let mut rules: Vec<QRule> = (0..n).map(|_| self.rule()).collect();
+                if n == 2 && self.src.chance(1, 2) {
+                    // same atoms twice: the second rule shares the first one's trie root
+                    rules[1] = rules[0].clone();
+                }
+                self.ops.push(Op::Query { rules });
+            }
+            18 => {
+                let slot = self.src.below(PLAN_SLOTS);
+                let rule = self.rule();
+                self.plans[slot] = Some(rule.clone());
+                self.ops.push(Op::CachePlan { slot, rule });
+            }
+            19 => {
+                let mut slot = self.src.below(PLAN_SLOTS);
+                if self.plans[slot].is_none() {
+                    slot = (0..PLAN_SLOTS).find(|s| self.plans[*s].is_some()).unwrap_or(slot);
+                }
+                if let Some(rule) = self.plans[slot].clone() {
+                    let n = if self.src.chance(1, 4) { 2 } else { self.src.below(2) };
+                    let extra = (0..n)
+                        .map(|_| {
+                            let a = self.src.below(rule.atoms.len());
+                            (a, self.constraint(rule.atoms[a].t, true))
+                        })
+                        .collect();
+                    self.ops.push(Op::RunCached { slot, extra });
+                } else {
+                    let rule = self.rule();
+                    self.plans[slot] = Some(rule.clone());
+                    self.ops.push(Op::CachePlan { slot, rule });
+                }
+            }
+            _ => {
+                for t in 0..self.nt() {
+                    if self.src.chance(5, 6) {
+                        let n = 1 + self.src.below(3);
+                        let items = self.items(t, n);
+                        self.ops.push(Op::Stage { t, items, second: vec![], second_first: false, fresh_handle: false });
+                    }
+                }
+                if self.uf {
+                    let pairs = vec![(self.src.below(UF_IDS) as u32, self.src.below(UF_IDS) as u32)];
+                    self.ops.push(Op::Union { pairs });
+                }
+                self.push_merge();
+            }
+        }
+    }
+}
+
+fn decode_tables(src: &mut Src, profile: Profile, uf: bool) -> Vec<TSpec> {
+    let n = match profile {
+        Profile::General => 1 + src.below(6),
+        Profile::Churn => 1 + src.below(2),
+    };
+    (0..n)
+        .map(|_| {
+            let n_keys = match profile {
+                Profile::General => src.below(5),
+                Profile::Churn => 1 + src.below(2),
+            };
+            let has_sort = src.chance(3, 5);
+            let mut n_vals = src.below(3);
+            if n_keys == 0 && !has_sort && n_vals == 0 {
+                n_vals = 1;
+            }
+            let n_cols = n_keys + n_vals + has_sort as usize;
+            // the sort column is usually last (egglog-bridge without subsumption), sometimes first after the keys
+            let sort = has_sort.then(|| if src.chance(1, 4) { n_keys } else { n_cols - 1 });
+            let mut merge = *src.pick(&[MergeKind::TakeNew, MergeKind::KeepOld, MergeKind::Max, MergeKind::Min]);
+            let mut rebuild = vec![];
+            if uf && src.chance(2, 5) {
+                for c in 0..n_cols {
+                    if Some(c) != sort && src.chance(1, 2) {
+                        rebuild.push(c);
+                    }
+                }
+                if !rebuild.is_empty() && matches!(merge, MergeKind::TakeNew | MergeKind::KeepOld) {
+                    // rows rewritten by a rebuild collide in an order the API does not document:
+                    // rebuildable tables get an order-independent merge function
+                    merge = if src.bool() { MergeKind::Max } else { MergeKind::Min };
+                }
+            }
+            TSpec { n_keys, n_cols, sort, merge, rebuild }
+        })
+        .collect()
+}
+
+fn decode_case(src: &mut Src, profile: Profile) -> Case {
+    let uf = match profile {
+        Profile::General => src.chance(1, 2),
+        Profile::Churn => src.chance(1, 4),
+    };
+    let pool = src.chance(1, 4);
+    let tables = decode_tables(src, profile, uf);
+    let mut d = Dec { src, tables, uf, profile, dts: 0, ops: vec![], steered: 0, plans: vec![None; PLAN_SLOTS] };
+    let mut n = 0;
+    while (n < 5 || !d.src.exhausted()) && d.ops.len() < 400 {
+        d.op();
+        n += 1;
+    }
+    d.ops.truncate(400);
+    Case { tables: d.tables, uf, pool, ops: d.ops, steered: d.steered, raw_switch: !EXCLUDE_CLONE_SHARED_NOTIFY }
+}
+
+// ---------------------------------------------------------------------------
+// stage
+// ---------------------------------------------------------------------------
+
+pub struct TableOps {
+    pub name: &'static str,
+    pub profile: Profile,
+}
+
+impl Stage for TableOps {
+    type Input = Case;
+    fn name(&self) -> &'static str {
+        self.name
+    }
+    fn decode(&self, src: &mut Src) -> Case {
+        decode_case(src, self.profile)
+    }
+    fn render(&self, c: &Case) -> J {
+        serde_json::json!({
+            "tables": c.tables.iter().map(|t| format!("{t:?}")).collect::<Vec<_>>(),
+            "union_find_table": c.uf,
+            "pool": c.pool,
+            "ops": c.ops.iter().map(|o| { let s = format!("{o:?}"); if s.len() > 400 { format!("{}…", &s[..400]) } else { s } }).collect::<Vec<_>>(),
+        })
+    }
+    fn simplify(&self, c: &Case) -> Vec<Case> {
+        let mut out = vec![];
+        let n = c.ops.len();
+        let mut sizes = vec![n / 2, n / 4, n / 8, 1];
+        sizes.retain(|s| *s >= 1);
+        sizes.dedup();
+        for sz in sizes {
+            let mut i = 0;
+            while i < n && out.len() < 250 {
+                let mut d = c.clone();
+                d.ops.drain(i..(i + sz).min(n));
+                out.push(d);
+                i += sz;
+            }
+        }
+        if c.pool {
+            let mut d = c.clone();
+            d.pool = false;
+            out.push(d);
+        }
+        for (i, op) in c.ops.iter().enumerate() {
+            if let Op::Stage { items, second, .. } = op {
+                if items.len() + second.len() > 2 && out.len() < 400 {
+                    let mut d = c.clone();
+                    if let Op::Stage { items, second, .. } = &mut d.ops[i] {
+                        items.truncate(items.len().div_ceil(2));
+                        second.truncate(second.len() / 2);
+                    }
+                    out.push(d);
+                }
+            }
+        }
+        out
+    }
+    fn check(&self, case: &Case) -> Outcome {
+        if case.pool {
+            // with a pool installed tables get 2*threads hash shards; all sizes stay far below the
+            // parallel cut-offs, so the algorithms are the serial ones (deterministic)
+            let pool = egglog_concurrency::ThreadPool::new(2);
+            pool.install(|| check_case(case))
+        } else {
+            check_case(case)
+        }
+    }
+}
+
+// ---------------------------------------------------------------------------
+// golden cases
+// ---------------------------------------------------------------------------
+
+fn ins(t: usize, rows: Vec<Vec<u32>>) -> Op {
+    Op::Stage { t, items: rows.into_iter().map(Item::Ins).collect(), second: vec![], second_first: false, fresh_handle: false }
+}
+fn rem(t: usize, keys: Vec<Vec<u32>>) -> Op {
+    Op::Stage { t, items: keys.into_iter().map(Item::Rem).collect(), second: vec![], second_first: false, fresh_handle: false }
+}
+fn q1(t: usize, ar: usize, cs: Vec<C>) -> Op {
+    Op::Query { rules: vec![QRule { atoms: vec![QAtom { t, cs, consts: vec![None; ar] }], join: None, join2: None, dup: None, strat: 0, no_decomp: false }] }
+}
+
+/// The known finding: two unions, clear_table(uf), point lookup of a formerly displaced id.
+fn golden_displaced_clear() -> Case {
+    Case {
+        tables: vec![],
+        uf: true,
+        pool: false,
+        ops: vec![Op::Union { pairs: vec![(1, 2), (3, 4)] }, Op::Merge, Op::Clear { t: 0 }, Op::Get { t: 0, key: vec![2] }],
+        steered: 0,
+        raw_switch: true,
+    }
+}
+
+/// The clone finding: clone; stage in the original; merge_all in the clone; merge_all in the original.
+fn golden_clone_notifications() -> Case {
+    Case {
+        tables: vec![TSpec { n_keys: 1, n_cols: 2, sort: None, merge: MergeKind::TakeNew, rebuild: vec![] }],
+        uf: false,
+        pool: false,
+        ops: vec![Op::CloneDb, ins(0, vec![vec![0, 1]]), Op::Switch { w: 1 }, Op::Merge, Op::Switch { w: 0 }, Op::Merge, Op::Get { t: 0, key: vec![0] }],
+        steered: 0,
+        raw_switch: true,
+    }
+}
+
+fn goldens() -> Vec<Case> {
+    let mut out = vec![];
+    // 1. compaction with index reads around it, sorted TakeNew table, one key column
+    for (merge, sort) in [(MergeKind::TakeNew, true), (MergeKind::Max, false), (MergeKind::KeepOld, true)] {
+        let spec = TSpec { n_keys: 1, n_cols: if sort { 3 } else { 2 }, sort: sort.then_some(2), merge, rebuild: vec![] };
+        let fill = |seed: usize, n: usize| ins(0, (0..n).map(|i| row_of(&spec, i, seed)).collect());
+        let ar = spec.n_cols;
+        // self-join on two columns: probes the cached multi-column (tuple) index
+        let q2 = |strat: u8| Op::Query {
+            rules: vec![QRule { atoms: vec![QAtom { t: 0, cs: vec![], consts: vec![None; ar] }, QAtom { t: 0, cs: vec![], consts: vec![None; ar] }], join: Some((0, 0)), join2: Some((1, 1)), dup: None, strat, no_decomp: false }],
+        };
+        let mut ops = vec![fill(1, 40), Op::Merge, q1(0, ar, vec![C::EqC(1, 3)]), q2(1), Op::Tick { by: 1 }];
+        ops.push(Op::CachePlan { slot: 0, rule: QRule { atoms: vec![QAtom { t: 0, cs: vec![], consts: vec![None; ar] }, QAtom { t: 0, cs: vec![], consts: vec![None; ar] }], join: Some((1, 1)), join2: None, dup: None, strat: 1, no_decomp: false } });
+        ops.push(fill(2, 40)); // collisions: every key again with other values
+        ops.push(Op::Merge);
+        ops.push(Op::RunCached { slot: 0, extra: vec![(0, C::EqC(0, 5))] });
+        ops.push(Op::Tick { by: 1 });
+        ops.push(rem(0, (0..30).map(|i| vec![i]).collect()));
+        ops.push(q2(1));
+        ops.push(Op::Merge); // crosses stale > max(16, n/2)
+        ops.push(q2(1));
+        ops.push(q2(2));
+        ops.push(q1(0, ar, vec![C::EqC(1, 3)]));
+        ops.push(q1(0, ar, vec![C::Gt(0, 1)]));
+        ops.push(Op::RunCached { slot: 0, extra: vec![(1, C::EqC(0, 35))] });
+        ops.push(Op::Fast { t: 0, c: C::Le(ar - 1, 1) });
+        ops.push(Op::Refine { t: 0, cs: vec![C::Ge(0, 33)], base: Some(C::Lt(ar - 1, 2)), via_ref: true });
+        ops.push(Op::Tick { by: 1 });
+        ops.push(fill(3, 12));
+        ops.push(Op::Merge);
+        ops.push(q2(1));
+        ops.push(Op::Page { t: 0, cs: vec![C::Lt(0, 38)], base: None, n: 3, cols: vec![0, 1] });
+        ops.push(q1(0, ar, vec![C::EqC(1, 3)]));
+        out.push(Case { tables: vec![spec.clone()], uf: false, pool: false, ops, steered: 0, raw_switch: false });
+    }
+    // 2. merge order inside one batch: removals first, then inserts in buffer-drop order
+    for merge in [MergeKind::TakeNew, MergeKind::KeepOld, MergeKind::Max, MergeKind::Min] {
+        let spec = TSpec { n_keys: 2, n_cols: 4, sort: Some(3), merge, rebuild: vec![] };
+        let ops = vec![
+            ins(0, vec![vec![1, 1, 5, 0], vec![1, 2, 5, 0]]),
+            Op::Merge,
+            Op::Tick { by: 1 },
+            // insert-then-remove of the same key in one batch: the remove is applied first, the insert survives
+            Op::Stage { t: 0, items: vec![Item::Ins(vec![1, 1, 2, 0]), Item::Rem(vec![1, 1])], second: vec![Item::Ins(vec![1, 2, 9, 0]), Item::Ins(vec![1, 2, 1, 0])], second_first: true, fresh_handle: true },
+            Op::Merge,
+            Op::Get { t: 0, key: vec![1, 1] },
+            Op::Get { t: 0, key: vec![1, 2] },
+            Op::Stage { t: 0, items: vec![Item::Ins(vec![2, 2, 3, 0])], second: vec![Item::Ins(vec![2, 2, 4, 0])], second_first: false, fresh_handle: false },
+            Op::Clear { t: 0 }, // drops the staged rows as well
+            Op::Merge,
+            Op::Get { t: 0, key: vec![2, 2] },
+        ];
+        out.push(Case { tables: vec![spec], uf: false, pool: true, ops, steered: 0, raw_switch: false });
+    }
+    // 3. >= 4 dirty tables (strata path of merge_all), arity-0 keys, clone divergence
+    {
+        let tables = vec![
+            TSpec { n_keys: 0, n_cols: 2, sort: Some(1), merge: MergeKind::Max, rebuild: vec![] },
+            TSpec { n_keys: 1, n_cols: 1, sort: None, merge: MergeKind::KeepOld, rebuild: vec![] },
+            TSpec { n_keys: 3, n_cols: 4, sort: None, merge: MergeKind::TakeNew, rebuild: vec![] },
+            TSpec { n_keys: 4, n_cols: 6, sort: Some(4), merge: MergeKind::Min, rebuild: vec![] },
+            TSpec { n_keys: 2, n_cols: 3, sort: Some(2), merge: MergeKind::TakeNew, rebuild: vec![] },
+        ];
+        let mut ops = vec![];
+        for round in 0..3u32 {
+            ops.push(ins(0, vec![vec![round + 1, 0]]));
+            ops.push(ins(1, vec![vec![round], vec![round + 7]]));
+            ops.push(ins(2, vec![vec![1, 2, 3, round], vec![0, 0, round, 1]]));
+            ops.push(ins(3, vec![vec![0, 1, 2, 0, 0, 5 - round], vec![round, 1, 2, 0, 0, 2]]));
+            ops.push(ins(4, vec![vec![round, 1, 0], vec![1, 1, 0]]));
+            ops.push(Op::Merge);
+            ops.push(Op::Tick { by: 1 });
+            if round == 0 {
+                ops.push(Op::CloneDb);
+            }
+        }
+        ops.push(Op::Switch { w: 1 });
+        ops.push(rem(0, vec![vec![]]));
+        ops.push(Op::Merge);
+        ops.push(Op::Query { rules: vec![QRule { atoms: vec![QAtom { t: 4, cs: vec![C::Ge(2, 1)], consts: vec![None; 3] }, QAtom { t: 2, cs: vec![], consts: vec![None, None, None, None] }], join: Some((0, 3)), join2: None, dup: None, strat: 2, no_decomp: true }] });
+        ops.push(Op::Switch { w: 0 });
+        ops.push(Op::Get { t: 0, key: vec![] });
+        out.push(Case { tables, uf: false, pool: false, ops, steered: 0, raw_switch: false });
+    }
+    // 4. value-level rebuild against the union-find table, with collisions, then refresh
+    {
+        let tables = vec![
+            TSpec { n_keys: 1, n_cols: 3, sort: Some(2), merge: MergeKind::Max, rebuild: vec![0, 1] },
+            TSpec { n_keys: 2, n_cols: 3, sort: None, merge: MergeKind::Min, rebuild: vec![1] },
+        ];
+        let uf = 2;
+        let ops = vec![
+            ins(0, (0..10).map(|i| vec![i, (i * 3) % 10, 0]).collect()),
+            ins(1, (0..10).map(|i| vec![i % 3, i, i]).collect()),
+            Op::Merge,
+            Op::Tick { by: 1 },
+            Op::Union { pairs: vec![(1, 2), (3, 4), (2, 4), (7, 7), (9, 8)] },
+            Op::Merge,
+            Op::Get { t: uf, key: vec![4] },
+            Op::Fast { t: uf, c: C::Le(2, 1) },
+            Op::Fast { t: uf, c: C::Lt(2, 1) },
+            Op::Fast { t: uf, c: C::EqC(0, 4) },
+            Op::Rebuild { tables: vec![0, 1] },
+            q1(0, 3, vec![C::Ge(2, 2)]),
+            Op::Query { rules: vec![QRule { atoms: vec![QAtom { t: 0, cs: vec![], consts: vec![None; 3] }, QAtom { t: uf, cs: vec![C::EqC(2, 1)], consts: vec![None; 3] }], join: Some((1, 1)), join2: None, dup: None, strat: 0, no_decomp: false }] },
+            Op::Refresh { tables: vec![0, 1], ids: vec![1, 8] },
+            Op::Union { pairs: vec![(1, 8)] },
+            Op::Rebuild { tables: vec![0, 1] },
+            Op::Estimate { t: uf, c: Some(C::Ge(2, 1)) },
+        ];
+        out.push(Case { tables, uf: true, pool: false, ops, steered: 0, raw_switch: false });
+    }
+    out
+}
+
+// ---------------------------------------------------------------------------
+// entry points
+// ---------------------------------------------------------------------------
+
+const STAGES: [(&str, Profile); 3] = [("table-ops", Profile::General), ("table-churn", Profile::Churn), ("golden", Profile::General)];
+
+pub fn replay(rep: &Report, stage: &str, j: &J) -> i32 {
+    match STAGES.iter().find(|(n, _)| *n == stage) {
+        Some((name, profile)) => crate::registry::replay_stage(rep, &TableOps { name, profile: *profile }, j),
+        None => 2,
+    }
+}
+
 pub fn child(_kind: &str, _payload: &J) -> Option<J> {
     None
+}
+
+pub fn run(rep: &Report) {
+    rep.set_rule(
+        "cases = operation sequences (5-400 ops, decoded from proptest byte strings) over a core-relations Database with 1-6 SortedWritesTables \
+         (0-4 key columns, with/without sort column, merge = keep-old/take-new/max/min, optionally rebuildable columns) and optionally the DisplacedTable: \
+         stage insert/remove through one or two buffers, bulk fill/purge, unions, merge_all (also with >=4 dirty tables), timestamp ticks, clear_table, clone+switch, \
+         apply_rebuild, refresh_rows_for_values, interleaved with get_row, refine/refine_ref, fast_subset, split_fast_slow, estimate_size, paged scan_project and \
+         1-/2-atom rule-set queries (fresh and via cached plans); after every op every table is read back (len, scan, get_row, updates_since) and compared with a BTreeMap model. \
+         distinct = distinct serialised case; non-trivial = the sequence has >=1 compaction (major generation bump not caused by clear_table), >=1 key collision \
+         (merge function invoked) and >=1 index-backed read (get_row or constrained/joined rule-set query) of a table after it was mutated",
+    );
+    rep.assume("all rows staged between two merges carry the same timestamp and timestamps never decrease (egglog-bridge's discipline; asserted by SortedWritesTable and DisplacedTable)");
+    rep.assume("the merge function writes the incoming timestamp into a changed row and reports 'unchanged' otherwise (egglog-bridge's MergeFn::to_callback)");
+    rep.assume("databases are cloned only when nothing is staged; rule sets are run right after they are built (header subsets are computed at build time)");
+    rep.assume("rebuildable tables use order-independent merge functions (the order in which rebuilt rows collide is not documented)");
+    rep.assume("parallel code paths (>= 400 000 rows / egglog thread pool with large tables) are outside this check; incremental rebuild (> 10 000 rows) likewise");
+    if EXCLUDE_DISPLACED_CLEAR {
+        rep.note("random stages never call clear_table on the DisplacedTable (known finding displaced-clear-stale-lookup); the golden case re-demonstrates it");
+    }
+    let golden = TableOps { name: "golden", profile: Profile::General };
+    rep.run_one(&golden, &golden_displaced_clear());
+    rep.run_one(&golden, &golden_clone_notifications());
+    // VERIF_C16_SKIP_GOLDEN: sensitivity experiments on the random stages alone
+    if std::env::var("VERIF_C16_SKIP_GOLDEN").is_err() {
+        for g in goldens() {
+            rep.run_one(&golden, &g);
+        }
+    }
+    let general = TableOps { name: "table-ops", profile: Profile::General };
+    let churn = TableOps { name: "table-churn", profile: Profile::Churn };
+    rep.run_regressions(&golden);
+    rep.run_regressions(&general);
+    rep.run_regressions(&churn);
+    let (n_general, n_churn) = match rep.tier {
+        Tier::Quick => (24_000, 14_000),
+        Tier::Thorough => (300_000, 200_000),
+    };
+    rep.explore(&churn, n_churn, 500);
+    rep.explore(&general, n_general, 700);
+    // long sequences (up to 400 ops)
+    let (n_long_general, n_long_churn) = rep.tier.pick((1500, 1000), (30_000, 20_000));
+    rep.explore(&general, n_long_general, 2400);
+    rep.explore(&churn, n_long_churn, 1600);
 }
